@@ -1,2233 +1,13 @@
-import Dnp3.Model.Database
+import Dnp3.Proofs.DbTables
+import Dnp3.Proofs.DatabaseEv
+import Dnp3.Proofs.DatabaseStatic
+import Dnp3.Proofs.DatabaseCap
+import Dnp3.Proofs.DatabaseX
 /-!
 # Proofs about the outstation database model (C03 / C11 / C13 component level)
 
-Operations, invariants (`Ordered`, `TotalExact`, `WrittenExact`) and their preservation by every
-operation (an overflow that discards a `Written` record takes it out of `written` too — the repair of
-D3); `clearWritten`, `reset`, `select`, `writeEvents`, `kept`; static write resumption.
+`DbTables`: well-formedness of the generated per-type tables; `DatabaseEv`: operations, invariants
+(`Ordered`, `TotalExact`, `WrittenExact`) and their preservation by every operation, `clearWritten`,
+`reset`, `select`, `writeEvents`, `kept`, the indications; `DatabaseStatic`: the static database and
+READ series; `DatabaseCap`: progress and capacity.
 -/
-namespace Dnp3.DbProofs
-open Dnp3 Dnp3.DbM
-
-/-! ## operations -/
-
-inductive DbOp where
-  | add (t : PtType) (idx cls : Nat)
-  | update (t : PtType) (idx : Nat) (value : Int) (flags time : Nat)
-  | select (h : ReadHdr)
-  | write (cap : Nat)
-  | unsol (c1 c2 c3 : Bool) (cap : Nat)
-  | clear
-  | reset
-deriving DecidableEq, Repr
-
-def step (db : Db) : DbOp → Db
-  | .add t idx cls => (db.add t idx cls).1
-  | .update t idx v f tm => (db.update t idx v f tm).1
-  | .select h => (db.select h).1
-  | .write cap => (db.writeResponse cap).1
-  | .unsol c1 c2 c3 cap => (db.writeUnsolicited c1 c2 c3 cap).1
-  | .clear => db.clearWritten.1
-  | .reset => db.reset
-
-def run (db : Db) (ops : List DbOp) : Db := ops.foldl step db
-
-theorem run_append (db : Db) (a b : List DbOp) : run db (a ++ b) = run (run db a) b := by
-  simp [run, List.foldl_append]
-
-/-! ## counting -/
-
-/-- the counters a list of records should produce, restricted to the records satisfying `p` -/
-def tallyBy (p : EvRec → Bool) (l : List EvRec) : Counters :=
-  { c1 := l.countP (fun r => p r && r.cls == 1)
-    c2 := l.countP (fun r => p r && r.cls == 2)
-    c3 := l.countP (fun r => p r && r.cls == 3)
-    bin := l.countP (fun r => p r && r.ty == .binary)
-    an := l.countP (fun r => p r && r.ty == .analog) }
-
-def isWritten (r : EvRec) : Bool := r.st == .written
-def anyRec (_ : EvRec) : Bool := true
-
-/-- `total` equals the per-class / per-type counts of the records -/
-def TotalExact (db : Db) : Prop := db.total = tallyBy anyRec db.events
-/-- `written` equals the per-class / per-type counts of the `Written` records -/
-def WrittenExact (db : Db) : Prop := db.written = tallyBy isWritten db.events
-def CountersExact (db : Db) : Prop := TotalExact db ∧ WrittenExact db
-
-/-- events oldest first: ids strictly increasing along the list, all below `next` -/
-def Ordered (db : Db) : Prop :=
-  db.events.Pairwise (fun a b => a.id < b.id) ∧ ∀ r ∈ db.events, r.id < db.next
-
-theorem Counters.ext' {a b : Counters} (h1 : a.c1 = b.c1) (h2 : a.c2 = b.c2) (h3 : a.c3 = b.c3)
-    (h4 : a.bin = b.bin) (h5 : a.an = b.an) : a = b := by
-  cases a; cases b; simp_all
-
-theorem tallyBy_nil (p : EvRec → Bool) : tallyBy p [] = {} := rfl
-
-/-- adding a record to the front adds one to its class and to its type, if it is counted -/
-theorem tallyBy_cons (p : EvRec → Bool) (r : EvRec) (l : List EvRec) :
-    tallyBy p (r :: l) = if p r then (tallyBy p l).inc r else tallyBy p l := by
-  cases hp : p r <;> simp only [tallyBy, List.countP_cons, hp, Bool.false_and, Bool.true_and]
-  · simp
-  · apply Counters.ext' <;>
-      simp only [Counters.inc, Counters.incTy, Counters.incCls] <;>
-      (rcases r with ⟨id, index, cls, ty, m, dv, sv, st⟩; simp only;
-       cases ty <;> (by_cases h1 : cls = 1 <;> by_cases h2 : cls = 2 <;> by_cases h3 : cls = 3 <;>
-        simp_all) )
-
-/-! ### field-level arithmetic of the counters -/
-
-def b2n (b : Bool) : Nat := if b then 1 else 0
-
-@[simp] theorem b2n_true : b2n true = 1 := rfl
-@[simp] theorem b2n_false : b2n false = 0 := rfl
-
-theorem incCls_fields (c : Counters) (k : Nat) :
-    (c.incCls k).c1 = c.c1 + b2n (k == 1) ∧ (c.incCls k).c2 = c.c2 + b2n (k == 2) ∧
-    (c.incCls k).c3 = c.c3 + b2n (k == 3) ∧ (c.incCls k).bin = c.bin ∧ (c.incCls k).an = c.an := by
-  by_cases h1 : k = 1 <;> by_cases h2 : k = 2 <;> by_cases h3 : k = 3 <;>
-    simp_all [Counters.incCls, b2n]
-
-theorem decCls_fields (c : Counters) (k : Nat) :
-    (c.decCls k).c1 = c.c1 - b2n (k == 1) ∧ (c.decCls k).c2 = c.c2 - b2n (k == 2) ∧
-    (c.decCls k).c3 = c.c3 - b2n (k == 3) ∧ (c.decCls k).bin = c.bin ∧ (c.decCls k).an = c.an := by
-  by_cases h1 : k = 1 <;> by_cases h2 : k = 2 <;> by_cases h3 : k = 3 <;>
-    simp_all [Counters.decCls, b2n]
-
-theorem incTy_fields (c : Counters) (t : PtType) :
-    (c.incTy t).c1 = c.c1 ∧ (c.incTy t).c2 = c.c2 ∧ (c.incTy t).c3 = c.c3 ∧
-    (c.incTy t).bin = c.bin + b2n (t == .binary) ∧ (c.incTy t).an = c.an + b2n (t == .analog) := by
-  cases t <;> simp [Counters.incTy, b2n]
-
-theorem decTy_fields (c : Counters) (t : PtType) :
-    (c.decTy t).c1 = c.c1 ∧ (c.decTy t).c2 = c.c2 ∧ (c.decTy t).c3 = c.c3 ∧
-    (c.decTy t).bin = c.bin - b2n (t == .binary) ∧ (c.decTy t).an = c.an - b2n (t == .analog) := by
-  cases t <;> simp [Counters.decTy, b2n]
-
-theorem inc_fields (c : Counters) (r : EvRec) :
-    (c.inc r).c1 = c.c1 + b2n (r.cls == 1) ∧ (c.inc r).c2 = c.c2 + b2n (r.cls == 2) ∧
-    (c.inc r).c3 = c.c3 + b2n (r.cls == 3) ∧ (c.inc r).bin = c.bin + b2n (r.ty == .binary) ∧
-    (c.inc r).an = c.an + b2n (r.ty == .analog) := by
-  have h1 := incTy_fields c r.ty
-  have h2 := incCls_fields (c.incTy r.ty) r.cls
-  simp only [Counters.inc]; omega
-
-theorem dec_fields (c : Counters) (r : EvRec) :
-    (c.dec r).c1 = c.c1 - b2n (r.cls == 1) ∧ (c.dec r).c2 = c.c2 - b2n (r.cls == 2) ∧
-    (c.dec r).c3 = c.c3 - b2n (r.cls == 3) ∧ (c.dec r).bin = c.bin - b2n (r.ty == .binary) ∧
-    (c.dec r).an = c.an - b2n (r.ty == .analog) := by
-  have h1 := decCls_fields c r.cls
-  have h2 := decTy_fields (c.decCls r.cls) r.ty
-  simp only [Counters.dec]; omega
-
-theorem countP_cons_b2n (p : EvRec → Bool) (r : EvRec) (l : List EvRec) :
-    (r :: l).countP p = l.countP p + b2n (p r) := by
-  cases h : p r <;> simp [h]
-
-theorem tallyBy_cons_fields (p : EvRec → Bool) (r : EvRec) (l : List EvRec) :
-    (tallyBy p (r :: l)).c1 = (tallyBy p l).c1 + b2n (p r && r.cls == 1) ∧
-    (tallyBy p (r :: l)).c2 = (tallyBy p l).c2 + b2n (p r && r.cls == 2) ∧
-    (tallyBy p (r :: l)).c3 = (tallyBy p l).c3 + b2n (p r && r.cls == 3) ∧
-    (tallyBy p (r :: l)).bin = (tallyBy p l).bin + b2n (p r && r.ty == .binary) ∧
-    (tallyBy p (r :: l)).an = (tallyBy p l).an + b2n (p r && r.ty == .analog) := by
-  simp only [tallyBy, countP_cons_b2n]; simp
-
-theorem tallyBy_append_fields (p : EvRec → Bool) (a b : List EvRec) :
-    (tallyBy p (a ++ b)).c1 = (tallyBy p a).c1 + (tallyBy p b).c1 ∧
-    (tallyBy p (a ++ b)).c2 = (tallyBy p a).c2 + (tallyBy p b).c2 ∧
-    (tallyBy p (a ++ b)).c3 = (tallyBy p a).c3 + (tallyBy p b).c3 ∧
-    (tallyBy p (a ++ b)).bin = (tallyBy p a).bin + (tallyBy p b).bin ∧
-    (tallyBy p (a ++ b)).an = (tallyBy p a).an + (tallyBy p b).an := by
-  simp [tallyBy, List.countP_append]
-
-/-- `remove_first(is_type)`: the list is the discarded record put back in front of a gap -/
-theorem removeFirstTy_spec (t : PtType) :
-    ∀ (l : List EvRec) (d : EvRec) (rest : List EvRec), removeFirstTy t l = some (d, rest) →
-      d.ty = t ∧ ∃ pre post, l = pre ++ d :: post ∧ rest = pre ++ post ∧ ∀ r ∈ pre, r.ty ≠ t := by
-  intro l
-  induction l with
-  | nil => intro d rest h; simp [removeFirstTy] at h
-  | cons r rs ih =>
-    intro d rest h
-    unfold removeFirstTy at h
-    by_cases hr : r.ty = t
-    · simp only [hr, if_true, Option.some.injEq, Prod.mk.injEq] at h
-      obtain ⟨rfl, rfl⟩ := h
-      exact ⟨hr, [], rs, rfl, rfl, by simp⟩
-    · simp only [hr, if_false] at h
-      cases hrec : removeFirstTy t rs with
-      | none => simp [hrec] at h
-      | some pr =>
-        obtain ⟨d', rest'⟩ := pr
-        simp only [hrec, Option.some.injEq, Prod.mk.injEq] at h
-        obtain ⟨rfl, rfl⟩ := h
-        obtain ⟨hty, pre, post, h1, h2, h3⟩ := ih d' rest' hrec
-        refine ⟨hty, r :: pre, post, by simp [h1], by simp [h2], ?_⟩
-        intro x hx
-        rcases List.mem_cons.mp hx with rfl | hx
-        · exact hr
-        · exact h3 x hx
-
-theorem removeFirstTy_none (t : PtType) :
-    ∀ (l : List EvRec), removeFirstTy t l = none → ∀ r ∈ l, r.ty ≠ t := by
-  intro l
-  induction l with
-  | nil => intro _ r hr; simp at hr
-  | cons r rs ih =>
-    intro h x hx
-    unfold removeFirstTy at h
-    by_cases hr : r.ty = t
-    · simp [hr] at h
-    · simp only [hr, if_false] at h
-      cases hrec : removeFirstTy t rs with
-      | some pr => simp [hrec] at h
-      | none =>
-        rcases List.mem_cons.mp hx with rfl | hx
-        · exact hr
-        · exact ih hrec x hx
-
-/-! ## `insert` -/
-
-/-- the record `insert` appends -/
-def mkRec (db : Db) (idx cls : Nat) (t : PtType) (m : Meas) (dv : Nat) : EvRec :=
-  { id := db.next, index := idx, cls := cls, ty := t, m := m, defVar := dv, selVar := dv }
-
-/-- the three outcomes of `EventBuffer::insert` -/
-theorem insert_cases (db : Db) (idx cls : Nat) (t : PtType) (m : Meas) (dv : Nat) :
-    (db.evMax = 0 ∧ db.insert idx cls t m dv = (db, .typeMaxIsZero)) ∨
-    (db.evMax ≠ 0 ∧ ∃ d rest, db.total.ty t = db.evMax ∧ removeFirstTy t db.events = some (d, rest) ∧
-      db.insert idx cls t m dv =
-        ({ db with next := db.next + 1, events := rest ++ [mkRec db idx cls t m dv]
-                   total := (((db.total.decTy t).decCls d.cls).incCls cls).incTy t
-                   written := if d.st = .written then (db.written.decTy t).decCls d.cls else db.written
-                   overflown := true }, .overflow db.next d.id)) ∨
-    (db.evMax ≠ 0 ∧ (db.total.ty t ≠ db.evMax ∨ removeFirstTy t db.events = none) ∧
-      db.insert idx cls t m dv =
-        ({ db with next := db.next + 1, events := db.events ++ [mkRec db idx cls t m dv]
-                   total := (db.total.incCls cls).incTy t }, .ok db.next)) := by
-  unfold Db.insert mkRec
-  by_cases h0 : db.evMax = 0
-  · left; simp [h0]
-  · right
-    simp only [h0, if_false]
-    by_cases hfull : db.total.ty t = db.evMax
-    · cases hrem : removeFirstTy t db.events with
-      | none => right; exact ⟨h0, Or.inr rfl, by rw [if_pos hfull]⟩
-      | some pr =>
-        obtain ⟨d, rest⟩ := pr
-        left; exact ⟨h0, d, rest, hfull, rfl, by rw [if_pos hfull]⟩
-    · right; exact ⟨h0, Or.inl hfull, by rw [if_neg hfull]⟩
-
-theorem tallyBy_singleton_any (r : EvRec) :
-    (tallyBy anyRec [r]).c1 = b2n (r.cls == 1) ∧ (tallyBy anyRec [r]).c2 = b2n (r.cls == 2) ∧
-    (tallyBy anyRec [r]).c3 = b2n (r.cls == 3) ∧ (tallyBy anyRec [r]).bin = b2n (r.ty == .binary) ∧
-    (tallyBy anyRec [r]).an = b2n (r.ty == .analog) := by
-  have := tallyBy_cons_fields anyRec r []
-  simp only [tallyBy_nil, anyRec, Bool.true_and] at this
-  simpa using this
-
-theorem b2n_le_one (b : Bool) : b2n b ≤ 1 := by cases b <;> simp
-
-/-- `total` stays exact through every insert (overflow included) -/
-theorem insert_total (db : Db) (idx cls : Nat) (t : PtType) (m : Meas) (dv : Nat)
-    (h : TotalExact db) : TotalExact (db.insert idx cls t m dv).1 := by
-  rcases insert_cases db idx cls t m dv with ⟨_, he⟩ | ⟨_, d, rest, hfull, hrem, he⟩ | ⟨_, _, he⟩
-  · rw [he]; exact h
-  · rw [he]
-    obtain ⟨hty, pre, post, hl, hr, _⟩ := removeFirstTy_spec t _ _ _ hrem
-    subst hr
-    unfold TotalExact at h ⊢
-    simp only
-    have e1 := tallyBy_append_fields anyRec (pre ++ post) [mkRec db idx cls t m dv]
-    have e2 := tallyBy_singleton_any (mkRec db idx cls t m dv)
-    have e3 := tallyBy_append_fields anyRec pre (d :: post)
-    have e4 := tallyBy_cons_fields anyRec d post
-    have e5 := tallyBy_append_fields anyRec pre post
-    have f1 := decTy_fields db.total t
-    have f2 := decCls_fields (db.total.decTy t) d.cls
-    have f3 := incCls_fields ((db.total.decTy t).decCls d.cls) cls
-    have f4 := incTy_fields (((db.total.decTy t).decCls d.cls).incCls cls) t
-    rw [hl] at h
-    simp only [anyRec, Bool.true_and, mkRec] at e1 e2 e3 e4 e5 ⊢
-    have b1 := b2n_le_one (d.cls == 1); have b2 := b2n_le_one (d.cls == 2)
-    have b3 := b2n_le_one (d.cls == 3)
-    have hb : b2n (t == .binary) = b2n (d.ty == .binary) := by rw [hty]
-    have ha : b2n (t == .analog) = b2n (d.ty == .analog) := by rw [hty]
-    apply Counters.ext' <;> simp only [h] at f1 f2 f3 f4 ⊢ <;> omega
-  · rw [he]
-    unfold TotalExact at h ⊢
-    simp only
-    have e1 := tallyBy_append_fields anyRec db.events [mkRec db idx cls t m dv]
-    have e2 := tallyBy_singleton_any (mkRec db idx cls t m dv)
-    have f3 := incCls_fields db.total cls
-    have f4 := incTy_fields (db.total.incCls cls) t
-    have hc : (mkRec db idx cls t m dv).cls = cls := rfl
-    have ht : (mkRec db idx cls t m dv).ty = t := rfl
-    rw [hc, ht] at e2
-    apply Counters.ext' <;> simp only [h] at f3 f4 ⊢ <;> omega
-
-theorem tallyBy_remove_unwritten (pre post : List EvRec) (d : EvRec) (hd : isWritten d = false) :
-    tallyBy isWritten (pre ++ d :: post) = tallyBy isWritten (pre ++ post) := by
-  have e3 := tallyBy_append_fields isWritten pre (d :: post)
-  have e4 := tallyBy_cons_fields isWritten d post
-  have e5 := tallyBy_append_fields isWritten pre post
-  simp only [hd, Bool.false_and, b2n_false] at e4
-  apply Counters.ext' <;> omega
-
-theorem tallyBy_append_unwritten (l : List EvRec) (r : EvRec) (hr : isWritten r = false) :
-    tallyBy isWritten (l ++ [r]) = tallyBy isWritten l := by
-  have e1 := tallyBy_append_fields isWritten l [r]
-  have e2 : (tallyBy isWritten [r]).c1 = 0 ∧ (tallyBy isWritten [r]).c2 = 0 ∧ (tallyBy isWritten [r]).c3 = 0 ∧
-      (tallyBy isWritten [r]).bin = 0 ∧ (tallyBy isWritten [r]).an = 0 := by
-    simp [tallyBy, hr]
-  apply Counters.ext' <;> omega
-
-/-- the `Written` tally without a `Written` record `d`: one less in its class and in its type -/
-theorem tallyBy_remove_written (pre post : List EvRec) (d : EvRec) (hd : isWritten d = true) :
-    (tallyBy isWritten (pre ++ post)).c1 = (tallyBy isWritten (pre ++ d :: post)).c1 - b2n (d.cls == 1) ∧
-    (tallyBy isWritten (pre ++ post)).c2 = (tallyBy isWritten (pre ++ d :: post)).c2 - b2n (d.cls == 2) ∧
-    (tallyBy isWritten (pre ++ post)).c3 = (tallyBy isWritten (pre ++ d :: post)).c3 - b2n (d.cls == 3) ∧
-    (tallyBy isWritten (pre ++ post)).bin = (tallyBy isWritten (pre ++ d :: post)).bin - b2n (d.ty == .binary) ∧
-    (tallyBy isWritten (pre ++ post)).an = (tallyBy isWritten (pre ++ d :: post)).an - b2n (d.ty == .analog) := by
-  have e3 := tallyBy_append_fields isWritten pre (d :: post)
-  have e4 := tallyBy_cons_fields isWritten d post
-  have e5 := tallyBy_append_fields isWritten pre post
-  simp only [hd, Bool.true_and] at e4
-  omega
-
-/-- `written` stays exact through every insert: a discarded `Written` record is taken out of
-    `written` (type and class), any other discard leaves it alone -/
-theorem insert_written (db : Db) (idx cls : Nat) (t : PtType) (m : Meas) (dv : Nat)
-    (h : WrittenExact db) : WrittenExact (db.insert idx cls t m dv).1 := by
-  have hmk : isWritten (mkRec db idx cls t m dv) = false := rfl
-  rcases insert_cases db idx cls t m dv with ⟨_, he⟩ | ⟨_, d, rest, hfull, hrem, he⟩ | ⟨_, _, he⟩
-  · rw [he]; exact h
-  · rw [he]
-    obtain ⟨hty, pre, post, hl, hr, _⟩ := removeFirstTy_spec t _ _ _ hrem
-    subst hr
-    unfold WrittenExact at h ⊢
-    simp only
-    rw [tallyBy_append_unwritten _ _ hmk]
-    by_cases hst : d.st = .written
-    · rw [if_pos hst]
-      have hd : isWritten d = true := by simp [isWritten, hst]
-      have e := tallyBy_remove_written pre post d hd
-      have f1 := decTy_fields db.written t
-      have f2 := decCls_fields (db.written.decTy t) d.cls
-      have hb : b2n (t == .binary) = b2n (d.ty == .binary) := by rw [hty]
-      have ha : b2n (t == .analog) = b2n (d.ty == .analog) := by rw [hty]
-      rw [hl] at h
-      apply Counters.ext' <;> simp only [h] at f1 f2 ⊢ <;> omega
-    · rw [if_neg hst]
-      have hd : isWritten d = false := by
-        simp only [isWritten]; cases hs' : d.st <;> simp_all
-      rw [← tallyBy_remove_unwritten pre post d hd, ← hl]
-      exact h
-  · rw [he]
-    unfold WrittenExact at h ⊢
-    simp only
-    rw [tallyBy_append_unwritten _ _ hmk]
-    exact h
-
-/-- the decrements of `insert` never underflow (the Rust `Count::decrement` is a checked `-= 1`):
-    with exact counters, the record an overflow discards is counted in `total` — type and class — and,
-    when it is `Written`, in `written` as well -/
-theorem insert_decrements_no_underflow (db : Db) (t : PtType) (d : EvRec) (rest : List EvRec)
-    (h : CountersExact db) (hrem : removeFirstTy t db.events = some (d, rest)) :
-    1 ≤ db.total.ty t ∧ (d.cls = 1 ∨ d.cls = 2 ∨ d.cls = 3 → 1 ≤ (db.total.decTy t).cls d.cls) ∧
-    (d.st = .written →
-      1 ≤ db.written.ty t ∧ (d.cls = 1 ∨ d.cls = 2 ∨ d.cls = 3 → 1 ≤ (db.written.decTy t).cls d.cls)) := by
-  obtain ⟨hty, pre, post, hl, _, _⟩ := removeFirstTy_spec t _ _ _ hrem
-  obtain ⟨ht, hw⟩ := h
-  unfold TotalExact at ht
-  unfold WrittenExact at hw
-  rw [hl] at ht hw
-  have a3 := tallyBy_append_fields anyRec pre (d :: post)
-  have a4 := tallyBy_cons_fields anyRec d post
-  have w3 := tallyBy_append_fields isWritten pre (d :: post)
-  have w4 := tallyBy_cons_fields isWritten d post
-  have f1 := decTy_fields db.total t
-  have g1 := decTy_fields db.written t
-  simp only [anyRec, Bool.true_and] at a4
-  subst hty
-  refine ⟨?_, ?_, ?_⟩
-  · cases hd : d.ty <;> simp only [Counters.ty, ht, hd, beq_self_eq_true, b2n_true] at a3 a4 ⊢ <;> omega
-  · rintro (hc | hc | hc) <;> simp only [Counters.cls, hc, ht, beq_self_eq_true, b2n_true] at f1 a3 a4 ⊢ <;> omega
-  · intro hst
-    have hd : isWritten d = true := by simp [isWritten, hst]
-    simp only [hd, Bool.true_and] at w4
-    refine ⟨?_, ?_⟩
-    · cases hd' : d.ty <;> simp only [Counters.ty, hw, hd', beq_self_eq_true, b2n_true] at w3 w4 ⊢ <;> omega
-    · rintro (hc | hc | hc) <;> simp only [Counters.cls, hc, hw, beq_self_eq_true, b2n_true] at g1 w3 w4 ⊢ <;> omega
-
-theorem insert_ordered (db : Db) (idx cls : Nat) (t : PtType) (m : Meas) (dv : Nat)
-    (h : Ordered db) : Ordered (db.insert idx cls t m dv).1 := by
-  obtain ⟨hp, hn⟩ := h
-  have key : ∀ l : List EvRec, l.Sublist db.events →
-      (l ++ [mkRec db idx cls t m dv]).Pairwise (fun a b => a.id < b.id) ∧
-      ∀ r ∈ l ++ [mkRec db idx cls t m dv], r.id < db.next + 1 := by
-    intro l hl
-    constructor
-    · rw [List.pairwise_append]
-      refine ⟨hp.sublist hl, by simp, ?_⟩
-      intro a ha b hb
-      simp only [List.mem_singleton] at hb
-      subst hb
-      exact hn a (hl.subset ha)
-    · intro r hr
-      rcases List.mem_append.mp hr with hr | hr
-      · exact Nat.lt_succ_of_lt (hn r (hl.subset hr))
-      · simp only [List.mem_singleton] at hr; subst hr; exact Nat.lt_succ_self _
-  rcases insert_cases db idx cls t m dv with ⟨_, he⟩ | ⟨_, d, rest, hfull, hrem, he⟩ | ⟨_, _, he⟩
-  · rw [he]; exact ⟨hp, hn⟩
-  · rw [he]
-    obtain ⟨_, pre, post, hl, hr, _⟩ := removeFirstTy_spec t _ _ _ hrem
-    subst hr
-    have hsub : (pre ++ post).Sublist db.events := by
-      rw [hl]; exact List.Sublist.append (List.Sublist.refl _) (List.sublist_cons_self _ _)
-    exact key _ hsub
-  · rw [he]; exact key _ (List.Sublist.refl _)
-
-/-! ## frame: operations that leave the event buffer alone -/
-
-/-- the event-buffer part of two databases coincides -/
-def EbEq (db db' : Db) : Prop :=
-  db'.events = db.events ∧ db'.total = db.total ∧ db'.written = db.written ∧ db'.next = db.next ∧
-  db'.evMax = db.evMax ∧ db'.overflown = db.overflown
-
-theorem EbEq.refl (db : Db) : EbEq db db := ⟨rfl, rfl, rfl, rfl, rfl, rfl⟩
-theorem EbEq.trans {a b c : Db} (h1 : EbEq a b) (h2 : EbEq b c) : EbEq a c := by
-  obtain ⟨a1, a2, a3, a4, a5, a6⟩ := h1
-  obtain ⟨b1, b2, b3, b4, b5, b6⟩ := h2
-  exact ⟨b1.trans a1, b2.trans a2, b3.trans a3, b4.trans a4, b5.trans a5, b6.trans a6⟩
-
-theorem EbEq.ordered {db db' : Db} (h : EbEq db db') (ho : Ordered db) : Ordered db' := by
-  obtain ⟨h1, _, _, h4, _, _⟩ := h
-  unfold Ordered at *; rw [h1, h4]; exact ho
-theorem EbEq.total {db db' : Db} (h : EbEq db db') (ho : TotalExact db) : TotalExact db' := by
-  obtain ⟨h1, h2, _, _, _, _⟩ := h
-  unfold TotalExact at *; rw [h1, h2]; exact ho
-theorem EbEq.written {db db' : Db} (h : EbEq db db') (ho : WrittenExact db) : WrittenExact db' := by
-  obtain ⟨h1, _, h3, _, _, _⟩ := h
-  unfold WrittenExact at *; rw [h1, h3]; exact ho
-
-theorem setMap_eb (db : Db) (t : PtType) (m : List (Nat × Point)) : EbEq db (db.setMap t m) := by
-  cases t <;> exact ⟨rfl, rfl, rfl, rfl, rfl, rfl⟩
-
-theorem add_eb (db : Db) (t : PtType) (idx cls : Nat) : EbEq db (db.add t idx cls).1 := by
-  unfold Db.add
-  split
-  · exact setMap_eb _ _ _
-  · exact EbEq.refl _
-
-theorem pushSel_eb (db : Db) (it : SelItem) : EbEq db (db.pushSel it).1 := by
-  unfold Db.pushSel; split <;> exact ⟨rfl, rfl, rfl, rfl, rfl, rfl⟩
-
-theorem selectStatic_eb (db : Db) (t : PtType) (var : Option Nat) (range : Option (Nat × Nat)) :
-    EbEq db (db.selectStatic t var range).1 := by
-  unfold Db.selectStatic
-  split
-  · exact EbEq.refl _
-  · exact EbEq.trans (setMap_eb _ _ _) (pushSel_eb _ _)
-
-theorem selectClass0_eb (db : Db) : EbEq db db.selectClass0.1 := by
-  unfold Db.selectClass0
-  exact EbEq.trans (selectStatic_eb db .binary none none) (selectStatic_eb _ .analog none none)
-
-/-! ## `update` -/
-
-def infoOf : InsertResult → UpdInfo
-  | .typeMaxIsZero => .noEvent
-  | .ok id => .created id
-  | .overflow c d => .overflow c d
-
-/-- `update` = a change of the static maps only, optionally followed by one `insert` -/
-theorem update_spec (db : Db) (t : PtType) (idx : Nat) (v : Int) (f tm : Nat) :
-    ∃ db0, EbEq db db0 ∧
-      (db.update t idx v f tm = (db0, .noPoint) ∨ db.update t idx v f tm = (db0, .noEvent) ∨
-       ∃ cls m, db.update t idx v f tm =
-          ((db0.insert idx cls t m (defaultEventVar t)).1, infoOf (db0.insert idx cls t m (defaultEventVar t)).2)) := by
-  unfold Db.update
-  cases hl : pmLookup (db.map t) idx with
-  | none => exact ⟨db, EbEq.refl _, Or.inl rfl⟩
-  | some p =>
-    simp only []
-    generalize mkMeas t v f tm = m
-    by_cases hev : isEvent t p.lastEvent m = true
-    · rw [if_pos hev]
-      by_cases hc : p.cls = 0
-      · rw [if_pos hc]; exact ⟨_, setMap_eb _ _ _, Or.inr (Or.inl rfl)⟩
-      · rw [if_neg hc]
-        refine ⟨db.setMap t (pmSet (db.map t) idx { p with current := m, lastEvent := m }),
-          setMap_eb db t _, Or.inr (Or.inr ⟨p.cls, m, ?_⟩)⟩
-        split <;> rename_i heq <;> simp only [heq, infoOf]
-    · rw [if_neg hev]; exact ⟨_, setMap_eb _ _ _, Or.inr (Or.inl rfl)⟩
-
-theorem update_ordered (db : Db) (t : PtType) (idx : Nat) (v : Int) (f tm : Nat) (h : Ordered db) :
-    Ordered (db.update t idx v f tm).1 := by
-  obtain ⟨db0, he, h1 | h1 | ⟨cls, m, h1⟩⟩ := update_spec db t idx v f tm <;> rw [h1]
-  · exact he.ordered h
-  · exact he.ordered h
-  · exact insert_ordered _ _ _ _ _ _ (he.ordered h)
-
-theorem update_total (db : Db) (t : PtType) (idx : Nat) (v : Int) (f tm : Nat) (h : TotalExact db) :
-    TotalExact (db.update t idx v f tm).1 := by
-  obtain ⟨db0, he, h1 | h1 | ⟨cls, m, h1⟩⟩ := update_spec db t idx v f tm <;> rw [h1]
-  · exact he.total h
-  · exact he.total h
-  · exact insert_total _ _ _ _ _ _ (he.total h)
-
-theorem update_written (db : Db) (t : PtType) (idx : Nat) (v : Int) (f tm : Nat) (h : WrittenExact db) :
-    WrittenExact (db.update t idx v f tm).1 := by
-  obtain ⟨db0, he, h1 | h1 | ⟨cls, m, h1⟩⟩ := update_spec db t idx v f tm <;> rw [h1]
-  · exact he.written h
-  · exact he.written h
-  · exact insert_written _ _ _ _ _ _ (he.written h)
-
-/-! ## record-by-record relations between two event lists -/
-
-inductive Pointwise {α : Type} (R : α → α → Prop) : List α → List α → Prop where
-  | nil : Pointwise R [] []
-  | cons {a b : α} {as bs : List α} : R a b → Pointwise R as bs → Pointwise R (a :: as) (b :: bs)
-
-theorem Pointwise.refl' {α : Type} {R : α → α → Prop} (h : ∀ a, R a a) : ∀ l : List α, Pointwise R l l
-  | [] => .nil
-  | a :: as => .cons (h a) (Pointwise.refl' h as)
-
-theorem Pointwise.mono {α : Type} {R S : α → α → Prop} (h : ∀ a b, R a b → S a b) {l l' : List α}
-    (p : Pointwise R l l') : Pointwise S l l' := by
-  induction p with
-  | nil => exact .nil
-  | cons hr _ ih => exact .cons (h _ _ hr) ih
-
-theorem Pointwise.length_eq {α : Type} {R : α → α → Prop} {l l' : List α} (p : Pointwise R l l') :
-    l'.length = l.length := by
-  induction p with
-  | nil => rfl
-  | cons _ _ ih => simp [ih]
-
-theorem Pointwise.map_eq {α β : Type} {R : α → α → Prop} (f : α → β) (h : ∀ a b, R a b → f b = f a)
-    {l l' : List α} (p : Pointwise R l l') : l'.map f = l.map f := by
-  induction p with
-  | nil => rfl
-  | cons hr _ ih => simp [h _ _ hr, ih]
-
-theorem Pointwise.comp {α : Type} {R S T : α → α → Prop} (h : ∀ a b c, R a b → S b c → T a c)
-    {l l' l'' : List α} (p : Pointwise R l l') (q : Pointwise S l' l'') : Pointwise T l l'' := by
-  induction p generalizing l'' with
-  | nil => cases q; exact .nil
-  | cons hr _ ih => cases q with | cons hs q' => exact .cons (h _ _ _ hr hs) (ih q')
-
-/-- everything about a record except its selection state and selected variation -/
-def core (r : EvRec) : Nat × Nat × Nat × PtType × Meas × Nat := (r.id, r.index, r.cls, r.ty, r.m, r.defVar)
-
-theorem core_id {a b : EvRec} (h : core b = core a) : b.id = a.id := by
-  simp only [core, Prod.mk.injEq] at h; exact h.1
-theorem core_cls {a b : EvRec} (h : core b = core a) : b.cls = a.cls := by
-  simp only [core, Prod.mk.injEq] at h; exact h.2.2.1
-theorem core_ty {a b : EvRec} (h : core b = core a) : b.ty = a.ty := by
-  simp only [core, Prod.mk.injEq] at h; exact h.2.2.2.1
-
-/-- counters only look at class, type and (for `written`) the predicate -/
-theorem tallyBy_congr (p : EvRec → Bool) {R : EvRec → EvRec → Prop}
-    (h : ∀ a b, R a b → core b = core a ∧ p b = p a) {l l' : List EvRec} (pw : Pointwise R l l') :
-    tallyBy p l' = tallyBy p l := by
-  induction pw with
-  | nil => rfl
-  | @cons a b as bs hr _ ih =>
-    obtain ⟨hc, hp⟩ := h _ _ hr
-    have e1 := tallyBy_cons_fields p a as
-    have e2 := tallyBy_cons_fields p b bs
-    rw [hp, core_cls hc, core_ty hc, ih] at e2
-    apply Counters.ext' <;> omega
-
-theorem ordered_of_ids {l l' : List EvRec} (n : Nat) (h : l'.map (·.id) = l.map (·.id))
-    (ho : l.Pairwise (fun a b => a.id < b.id) ∧ ∀ r ∈ l, r.id < n) :
-    l'.Pairwise (fun a b => a.id < b.id) ∧ ∀ r ∈ l', r.id < n := by
-  obtain ⟨hp, hn⟩ := ho
-  constructor
-  · have : (l.map (·.id)).Pairwise (· < ·) := List.pairwise_map.mpr hp
-    rw [← h] at this
-    exact List.pairwise_map.mp this
-  · intro r hr
-    have : r.id ∈ l'.map (·.id) := List.mem_map.mpr ⟨r, hr, rfl⟩
-    rw [h] at this
-    obtain ⟨r0, hr0, he⟩ := List.mem_map.mp this
-    rw [← he]; exact hn r0 hr0
-
-/-! ## `select` (events) -/
-
-/-- one record under a selection: unchanged, or `Unselected` → `Selected` with some variation -/
-def SelStep (a b : EvRec) : Prop :=
-  b = a ∨ (a.st = .unselected ∧ ∃ v, b = { a with st := .selected, selVar := v })
-
-theorem SelStep.core {a b : EvRec} (h : SelStep a b) : core b = core a ∧ isWritten b = isWritten a := by
-  rcases h with rfl | ⟨hu, v, rfl⟩
-  · exact ⟨rfl, rfl⟩
-  · simp only [DbProofs.core, isWritten, hu, true_and]; decide
-
-/-- `EventBuffer::select` only ever moves records from `Unselected` to `Selected` -/
-theorem selectEvents_pointwise (p : EvRec → Bool) (var : Option Nat) :
-    ∀ (l : List EvRec) (lim : Option Nat), Pointwise SelStep l (selectEvents p var lim l).1 := by
-  intro l
-  induction l with
-  | nil => intro lim; cases lim <;> simp [selectEvents] <;> exact .nil
-  | cons r rs ih =>
-    intro lim
-    by_cases hz : lim = some 0
-    · subst hz
-      simp only [selectEvents]
-      exact Pointwise.refl' (R := SelStep) (fun a => Or.inl rfl) _
-    · rw [selectEvents.eq_3 _ _ _ _ _ (by intro h; exact hz h)]
-      split
-      · rename_i hc
-        exact .cons (Or.inr ⟨hc.1, _, rfl⟩) (ih _)
-      · exact .cons (Or.inl rfl) (ih _)
-
-/-- the event buffer after a selection: records moved `Unselected` → `Selected`, nothing else -/
-def EbSel (db db' : Db) : Prop :=
-  Pointwise SelStep db.events db'.events ∧ db'.total = db.total ∧ db'.written = db.written ∧
-  db'.next = db.next ∧ db'.evMax = db.evMax ∧ db'.overflown = db.overflown
-
-theorem EbEq.toSel {db db' : Db} (h : EbEq db db') : EbSel db db' := by
-  obtain ⟨h1, h2, h3, h4, h5, h6⟩ := h
-  refine ⟨?_, h2, h3, h4, h5, h6⟩
-  rw [h1]; exact Pointwise.refl' (R := SelStep) (fun a => Or.inl rfl) _
-
-theorem EbSel.ordered {db db' : Db} (h : EbSel db db') (ho : Ordered db) : Ordered db' := by
-  obtain ⟨h1, _, _, h4, _, _⟩ := h
-  unfold Ordered at *; rw [h4]
-  exact ordered_of_ids _ (h1.map_eq (·.id) (fun a b hs => core_id hs.core.1)) ho
-theorem EbSel.total {db db' : Db} (h : EbSel db db') (ho : TotalExact db) : TotalExact db' := by
-  obtain ⟨h1, h2, _, _, _, _⟩ := h
-  unfold TotalExact at *; rw [h2, ho]
-  exact (tallyBy_congr anyRec (fun a b hs => ⟨hs.core.1, rfl⟩) h1).symm
-theorem EbSel.written {db db' : Db} (h : EbSel db db') (ho : WrittenExact db) : WrittenExact db' := by
-  obtain ⟨h1, _, h3, _, _, _⟩ := h
-  unfold WrittenExact at *; rw [h3, ho]
-  exact (tallyBy_congr isWritten (fun a b hs => hs.core) h1).symm
-
-/-- `DatabaseHandle::select` never touches the event buffer except to move records from
-    `Unselected` to `Selected` -/
-theorem select_sel (db : Db) (h : ReadHdr) : EbSel db (db.select h).1 := by
-  unfold Db.select
-  split
-  · exact (selectClass0_eb db).toSel
-  · exact ⟨selectEvents_pointwise _ _ _ _, rfl, rfl, rfl, rfl, rfl⟩
-  · exact ⟨selectEvents_pointwise _ _ _ _, rfl, rfl, rfl, rfl, rfl⟩
-  · exact (EbEq.refl db).toSel
-  · exact (selectStatic_eb db _ _ _).toSel
-  · split
-    · exact (EbEq.refl db).toSel
-    · exact (pushSel_eb db _).toSel
-  · split
-    · exact (EbEq.refl db).toSel
-    · exact (pushSel_eb db _).toSel
-  · exact (EbEq.refl db).toSel
-  · split <;> exact (EbEq.refl db).toSel
-  · split
-    · exact (EbEq.refl db).toSel
-    · split
-      · split
-        · exact ⟨Pointwise.refl' (R := SelStep) (fun a => Or.inl rfl) _, rfl, rfl, rfl, rfl, rfl⟩
-        · exact (EbEq.refl db).toSel
-      · exact (EbEq.refl db).toSel
-  · exact (EbEq.refl db).toSel
-  · exact (EbEq.refl db).toSel
-  · exact (EbEq.refl db).toSel
-
-/-! ## `write_events` -/
-
-def isSelected (r : EvRec) : Bool := r.st == .selected
-
-/-- mark the first `n` `Selected` records (in list order) `Written` -/
-def markFirst : Nat → List EvRec → List EvRec
-  | 0, l => l
-  | _, [] => []
-  | n + 1, r :: rs =>
-    if r.st = .selected then { r with st := .written } :: markFirst n rs else r :: markFirst (n + 1) rs
-
-theorem markFirst_nil (n : Nat) : markFirst n [] = [] := by cases n <;> rfl
-
-theorem markFirst_cons_sel (n : Nat) (r : EvRec) (rs : List EvRec) (h : r.st = .selected) :
-    markFirst (n + 1) (r :: rs) = { r with st := .written } :: markFirst n rs := by
-  simp [markFirst, h]
-
-theorem markFirst_cons_other (n : Nat) (r : EvRec) (rs : List EvRec) (h : r.st ≠ .selected) :
-    markFirst n (r :: rs) = r :: markFirst n rs := by
-  cases n with
-  | zero => simp [markFirst]
-  | succ n => simp [markFirst, h]
-
-/-- `write_events` marks `Written` exactly a prefix (in list order) of the `Selected` records:
-    the records it reports as written; it is complete iff that prefix is all of them, and
-    otherwise the next `Selected` record did not fit -/
-theorem evLoop_spec (cap : Nat) :
-    ∀ (l : List EvRec) (used : Nat) (cur : Option EvCur),
-      (evLoop cap l used cur).1 = markFirst (evLoop cap l used cur).2.1.length l ∧
-      (evLoop cap l used cur).2.1 = (l.filter isSelected).take (evLoop cap l used cur).2.1.length ∧
-      ((evLoop cap l used cur).2.2 = true → (evLoop cap l used cur).2.1 = l.filter isSelected) ∧
-      ((evLoop cap l used cur).2.2 = false →
-        (evLoop cap l used cur).2.1.length < (l.filter isSelected).length) := by
-  intro l
-  induction l with
-  | nil => intro used cur; simp [evLoop, markFirst]
-  | cons r rs ih =>
-    intro used cur
-    unfold evLoop
-    by_cases hs : r.st = .selected
-    · have hsel : isSelected r = true := by simp [isSelected, hs]
-      simp only [hs, if_true]
-      by_cases hfit : used + evCost cur r ≤ cap
-      · simp only [hfit, if_true]
-        obtain ⟨i1, i2, i3, i4⟩ := ih (used + evCost cur r) (some (evNext cur r))
-        refine ⟨?_, ?_, ?_, ?_⟩
-        · simp only [List.length_cons]
-          rw [markFirst_cons_sel _ _ _ hs, ← i1]
-        · simp only [List.length_cons, List.filter_cons, hsel, if_true, List.take_succ_cons]
-          rw [← i2]
-        · intro hc
-          simp only [List.filter_cons, hsel, if_true]
-          rw [i3 hc]
-        · intro hc
-          simp only [List.length_cons, List.filter_cons, hsel, if_true]
-          exact Nat.succ_lt_succ (i4 hc)
-      · simp only [hfit, if_false]
-        refine ⟨by simp [markFirst], by simp, by simp, ?_⟩
-        intro _; simp [hsel]
-    · have hsel : isSelected r = false := by simp [isSelected, hs]
-      simp only [hs, if_false]
-      obtain ⟨i1, i2, i3, i4⟩ := ih used cur
-      refine ⟨?_, ?_, ?_, ?_⟩
-      · rw [markFirst_cons_other _ _ _ hs, ← i1]
-      · simp only [List.filter_cons, hsel]; exact i2
-      · intro hc; simp only [List.filter_cons, hsel]; exact i3 hc
-      · intro hc; simp only [List.filter_cons, hsel]; exact i4 hc
-
-/-- one record under `write_events`: unchanged, or `Selected` → `Written` -/
-def WrStep (a b : EvRec) : Prop := b = a ∨ (a.st = .selected ∧ b = { a with st := .written })
-
-theorem WrStep.core {a b : EvRec} (h : WrStep a b) : core b = core a := by
-  rcases h with rfl | ⟨_, rfl⟩ <;> rfl
-
-theorem markFirst_pointwise : ∀ (l : List EvRec) (n : Nat), Pointwise WrStep l (markFirst n l) := by
-  intro l
-  induction l with
-  | nil => intro n; rw [markFirst_nil]; exact .nil
-  | cons r rs ih =>
-    intro n
-    cases n with
-    | zero => simp only [markFirst]; exact Pointwise.refl' (R := WrStep) (fun a => Or.inl rfl) _
-    | succ n =>
-      by_cases hs : r.st = .selected
-      · rw [markFirst_cons_sel _ _ _ hs]; exact .cons (Or.inr ⟨hs, rfl⟩) (ih n)
-      · rw [markFirst_cons_other _ _ _ hs]; exact .cons (Or.inl rfl) (ih (n + 1))
-
-theorem foldl_inc_fields : ∀ (w : List EvRec) (c : Counters),
-    (w.foldl Counters.inc c).c1 = c.c1 + (tallyBy anyRec w).c1 ∧
-    (w.foldl Counters.inc c).c2 = c.c2 + (tallyBy anyRec w).c2 ∧
-    (w.foldl Counters.inc c).c3 = c.c3 + (tallyBy anyRec w).c3 ∧
-    (w.foldl Counters.inc c).bin = c.bin + (tallyBy anyRec w).bin ∧
-    (w.foldl Counters.inc c).an = c.an + (tallyBy anyRec w).an := by
-  intro w
-  induction w with
-  | nil => intro c; simp [tallyBy]
-  | cons r rs ih =>
-    intro c
-    have e1 := ih (c.inc r)
-    have e2 := inc_fields c r
-    have e3 := tallyBy_cons_fields anyRec r rs
-    simp only [anyRec, Bool.true_and] at e3
-    simp only [List.foldl_cons]
-    omega
-
-/-- marking the first `n` selected records adds exactly their tally to the `Written` tally -/
-theorem markFirst_tally : ∀ (l : List EvRec) (n : Nat),
-    (tallyBy isWritten (markFirst n l)).c1 = (tallyBy isWritten l).c1 + (tallyBy anyRec ((l.filter isSelected).take n)).c1 ∧
-    (tallyBy isWritten (markFirst n l)).c2 = (tallyBy isWritten l).c2 + (tallyBy anyRec ((l.filter isSelected).take n)).c2 ∧
-    (tallyBy isWritten (markFirst n l)).c3 = (tallyBy isWritten l).c3 + (tallyBy anyRec ((l.filter isSelected).take n)).c3 ∧
-    (tallyBy isWritten (markFirst n l)).bin = (tallyBy isWritten l).bin + (tallyBy anyRec ((l.filter isSelected).take n)).bin ∧
-    (tallyBy isWritten (markFirst n l)).an = (tallyBy isWritten l).an + (tallyBy anyRec ((l.filter isSelected).take n)).an := by
-  intro l
-  induction l with
-  | nil => intro n; rw [markFirst_nil]; simp [tallyBy]
-  | cons r rs ih =>
-    intro n
-    cases n with
-    | zero => simp [markFirst, tallyBy]
-    | succ n =>
-      by_cases hs : r.st = .selected
-      · have hsel : isSelected r = true := by simp [isSelected, hs]
-        rw [markFirst_cons_sel _ _ _ hs]
-        simp only [List.filter_cons, hsel, if_true, List.take_succ_cons]
-        have e1 := tallyBy_cons_fields isWritten { r with st := .written } (markFirst n rs)
-        have e2 := tallyBy_cons_fields isWritten r rs
-        have e3 := tallyBy_cons_fields anyRec r ((rs.filter isSelected).take n)
-        have e4 := ih n
-        have h1 : isWritten { r with st := .written } = true := rfl
-        have h2 : isWritten r = false := by simp [isWritten, hs]
-        simp only [h1, h2, anyRec, Bool.true_and, Bool.false_and, b2n_false] at e1 e2 e3
-        omega
-      · have hsel : isSelected r = false := by simp [isSelected, hs]
-        rw [markFirst_cons_other _ _ _ hs]
-        simp only [List.filter_cons, hsel]
-        have e1 := tallyBy_cons_fields isWritten r (markFirst (n + 1) rs)
-        have e2 := tallyBy_cons_fields isWritten r rs
-        have e4 := ih (n + 1)
-        simp only [Bool.false_eq_true, if_false]
-        omega
-
-/-- what `Db.writeEvents` does to the event buffer: the first `n` selected records become
-    `Written`, `written` grows by their tally -/
-theorem writeEvents_spec (db : Db) (cap : Nat) :
-    ∃ n, (db.writeEvents cap).1.events = markFirst n db.events ∧
-      (db.writeEvents cap).2.1 = (db.events.filter isSelected).take n ∧
-      n = (db.writeEvents cap).2.1.length ∧
-      (db.writeEvents cap).1.written = ((db.events.filter isSelected).take n).foldl Counters.inc db.written ∧
-      (db.writeEvents cap).1.total = db.total ∧ (db.writeEvents cap).1.next = db.next ∧
-      (db.writeEvents cap).1.evMax = db.evMax ∧ (db.writeEvents cap).1.overflown = db.overflown ∧
-      (db.writeEvents cap).1.queue = db.queue ∧ (db.writeEvents cap).1.bins = db.bins ∧
-      (db.writeEvents cap).1.ans = db.ans ∧ (db.writeEvents cap).1.selCap = db.selCap ∧
-      ((db.writeEvents cap).2.2 = true → n = (db.events.filter isSelected).length) ∧
-      ((db.writeEvents cap).2.2 = false → n < (db.events.filter isSelected).length) := by
-  obtain ⟨i1, i2, i3, i4⟩ := evLoop_spec cap db.events 0 none
-  refine ⟨(evLoop cap db.events 0 none).2.1.length, ?_⟩
-  refine ⟨i1, i2, rfl, ?_, rfl, rfl, rfl, rfl, rfl, rfl, rfl, rfl, ?_, i4⟩
-  · show (evLoop cap db.events 0 none).2.1.foldl Counters.inc db.written = _
-    rw [← i2]
-  · intro hc
-    have : (evLoop cap db.events 0 none).2.1 = db.events.filter isSelected := i3 hc
-    rw [this]
-
-/-- records change only by `Selected` → `Written` -/
-def EbWr (db db' : Db) : Prop :=
-  Pointwise WrStep db.events db'.events ∧ db'.total = db.total ∧ db'.next = db.next ∧
-  db'.evMax = db.evMax ∧ db'.overflown = db.overflown
-
-theorem writeEvents_ordered (db : Db) (cap : Nat) (h : Ordered db) : Ordered (db.writeEvents cap).1 := by
-  obtain ⟨n, h1, _, _, _, _, h6, _⟩ := writeEvents_spec db cap
-  unfold Ordered at *
-  rw [h1, h6]
-  exact ordered_of_ids _ ((markFirst_pointwise db.events n).map_eq (·.id) (fun a b hs => core_id hs.core)) h
-
-theorem writeEvents_total (db : Db) (cap : Nat) (h : TotalExact db) : TotalExact (db.writeEvents cap).1 := by
-  obtain ⟨n, h1, _, _, _, h5, _⟩ := writeEvents_spec db cap
-  unfold TotalExact at *
-  rw [h1, h5, h]
-  exact (tallyBy_congr anyRec (fun a b hs => ⟨hs.core, rfl⟩) (markFirst_pointwise db.events n)).symm
-
-theorem writeEvents_written (db : Db) (cap : Nat) (h : WrittenExact db) :
-    WrittenExact (db.writeEvents cap).1 := by
-  obtain ⟨n, h1, _, _, h4, _⟩ := writeEvents_spec db cap
-  unfold WrittenExact at *
-  rw [h1, h4, h]
-  have e1 := foldl_inc_fields ((db.events.filter isSelected).take n) (tallyBy isWritten db.events)
-  have e2 := markFirst_tally db.events n
-  apply Counters.ext' <;> omega
-
-/-! ## `reset`, `clearWritten` -/
-
-theorem reset_pointwise (l : List EvRec) :
-    Pointwise (fun a b => b = { a with st := .unselected }) l (l.map (fun r => { r with st := .unselected })) := by
-  induction l with
-  | nil => exact .nil
-  | cons r rs ih => exact .cons rfl ih
-
-theorem tallyBy_none (p : EvRec → Bool) (l : List EvRec) (h : ∀ r ∈ l, p r = false) : tallyBy p l = {} := by
-  induction l with
-  | nil => rfl
-  | cons r rs ih =>
-    have e := tallyBy_cons_fields p r rs
-    rw [ih (fun x hx => h x (List.mem_cons_of_mem _ hx)), h r (List.mem_cons_self ..)] at e
-    simp only [Bool.false_and, b2n_false] at e
-    apply Counters.ext' <;> simp only [] <;> omega
-
-/-- `reset` releases nothing and returns every record to `Unselected` -/
-theorem reset_spec (db : Db) :
-    db.reset.events = db.events.map (fun r => { r with st := .unselected }) ∧
-    db.reset.events.map core = db.events.map core ∧
-    (∀ r ∈ db.reset.events, r.st = .unselected) ∧
-    db.reset.total = db.total ∧ db.reset.written = {} ∧ db.reset.next = db.next ∧
-    db.reset.evMax = db.evMax ∧ db.reset.overflown = db.overflown ∧ db.reset.queue = [] := by
-  refine ⟨rfl, ?_, ?_, rfl, rfl, rfl, rfl, rfl, rfl⟩
-  · exact (reset_pointwise db.events).map_eq core (fun a b hb => by rw [hb]; rfl)
-  · intro r hr
-    simp only [Db.reset, List.mem_map] at hr
-    obtain ⟨a, _, rfl⟩ := hr
-    rfl
-
-theorem reset_ordered (db : Db) (h : Ordered db) : Ordered db.reset := by
-  unfold Ordered at *
-  exact ordered_of_ids _ ((reset_pointwise db.events).map_eq (·.id) (fun a b hb => by rw [hb])) h
-
-theorem reset_total (db : Db) (h : TotalExact db) : TotalExact db.reset := by
-  unfold TotalExact at *
-  show db.total = _
-  rw [h]
-  exact (tallyBy_congr anyRec (fun a b hb => by rw [hb]; exact ⟨rfl, rfl⟩) (reset_pointwise db.events)).symm
-
-/-- `reset` re-establishes `WrittenExact` whatever the state was (it heals D3) -/
-theorem reset_written (db : Db) : WrittenExact db.reset := by
-  unfold WrittenExact
-  show ({} : Counters) = _
-  rw [tallyBy_none]
-  intro r hr
-  have := (reset_spec db).2.2.1 r hr
-  simp [isWritten, this]
-
-theorem foldl_dec_fields : ∀ (g : List EvRec) (c : Counters),
-    (g.foldl Counters.dec c).c1 = c.c1 - (tallyBy anyRec g).c1 ∧
-    (g.foldl Counters.dec c).c2 = c.c2 - (tallyBy anyRec g).c2 ∧
-    (g.foldl Counters.dec c).c3 = c.c3 - (tallyBy anyRec g).c3 ∧
-    (g.foldl Counters.dec c).bin = c.bin - (tallyBy anyRec g).bin ∧
-    (g.foldl Counters.dec c).an = c.an - (tallyBy anyRec g).an := by
-  intro g
-  induction g with
-  | nil => intro c; simp [tallyBy]
-  | cons r rs ih =>
-    intro c
-    have e1 := ih (c.dec r)
-    have e2 := dec_fields c r
-    have e3 := tallyBy_cons_fields anyRec r rs
-    simp only [anyRec, Bool.true_and] at e3
-    simp only [List.foldl_cons]
-    obtain ⟨a1, a2, a3, a4, a5⟩ := e1
-    obtain ⟨b1, b2, b3, b4, b5⟩ := e2
-    obtain ⟨c1, c2, c3, c4, c5⟩ := e3
-    refine ⟨?_, ?_, ?_, ?_, ?_⟩
-    · clear a2 a3 a4 a5 b2 b3 b4 b5 c2 c3 c4 c5; omega
-    · clear a1 a3 a4 a5 b1 b3 b4 b5 c1 c3 c4 c5; omega
-    · clear a1 a2 a4 a5 b1 b2 b4 b5 c1 c2 c4 c5; omega
-    · clear a1 a2 a3 a5 b1 b2 b3 b5 c1 c2 c3 c5; omega
-    · clear a1 a2 a3 a4 b1 b2 b3 b4 c1 c2 c3 c4; omega
-
-theorem tallyBy_filter_split (q : EvRec → Bool) (l : List EvRec) :
-    (tallyBy anyRec l).c1 = (tallyBy anyRec (l.filter q)).c1 + (tallyBy anyRec (l.filter (fun r => !q r))).c1 ∧
-    (tallyBy anyRec l).c2 = (tallyBy anyRec (l.filter q)).c2 + (tallyBy anyRec (l.filter (fun r => !q r))).c2 ∧
-    (tallyBy anyRec l).c3 = (tallyBy anyRec (l.filter q)).c3 + (tallyBy anyRec (l.filter (fun r => !q r))).c3 ∧
-    (tallyBy anyRec l).bin = (tallyBy anyRec (l.filter q)).bin + (tallyBy anyRec (l.filter (fun r => !q r))).bin ∧
-    (tallyBy anyRec l).an = (tallyBy anyRec (l.filter q)).an + (tallyBy anyRec (l.filter (fun r => !q r))).an := by
-  induction l with
-  | nil => simp [tallyBy]
-  | cons r rs ih =>
-    have e0 := tallyBy_cons_fields anyRec r rs
-    cases hq : q r
-    · have e1 := tallyBy_cons_fields anyRec r (rs.filter (fun r => !q r))
-      simp only [List.filter_cons, hq, Bool.not_false, if_true, Bool.false_eq_true, if_false]
-      omega
-    · have e1 := tallyBy_cons_fields anyRec r (rs.filter q)
-      simp only [List.filter_cons, hq, Bool.not_true, if_true, Bool.false_eq_true, if_false]
-      omega
-
-/-- `clearWritten` removes exactly the `Written` records and reports their ids in list order -/
-theorem clear_spec (db : Db) :
-    db.clearWritten.1.events = db.events.filter (fun r => !isWritten r) ∧
-    db.clearWritten.2.1 = (db.events.filter isWritten).map (·.id) ∧
-    db.clearWritten.1.written = {} ∧ db.clearWritten.1.next = db.next ∧
-    db.clearWritten.1.evMax = db.evMax ∧
-    db.clearWritten.1.total = (db.events.filter isWritten).foldl Counters.dec db.total ∧
-    db.clearWritten.2.2 = (db.clearWritten.1.total.c1, db.clearWritten.1.total.c2, db.clearWritten.1.total.c3) ∧
-    db.clearWritten.1.queue = db.queue ∧ db.clearWritten.1.bins = db.bins ∧ db.clearWritten.1.ans = db.ans := by
-  unfold Db.clearWritten
-  simp only []
-  have hf : (fun r : EvRec => r.st != EvState.written) = (fun r => !isWritten r) := by
-    funext r; simp [isWritten, bne]
-  have hg : (fun r : EvRec => r.st == EvState.written) = isWritten := rfl
-  split <;> simp only [hf, hg] <;> (repeat' constructor)
-
-theorem clear_ordered (db : Db) (h : Ordered db) : Ordered db.clearWritten.1 := by
-  obtain ⟨h1, _, _, h4, _⟩ := clear_spec db
-  obtain ⟨hp, hn⟩ := h
-  unfold Ordered
-  rw [h1, h4]
-  exact ⟨hp.sublist List.filter_sublist, fun r hr => hn r (List.mem_filter.mp hr).1⟩
-
-theorem clear_total (db : Db) (h : TotalExact db) : TotalExact db.clearWritten.1 := by
-  obtain ⟨h1, _, _, _, _, h6, _⟩ := clear_spec db
-  unfold TotalExact at *
-  rw [h1, h6, h]
-  have e1 := foldl_dec_fields (db.events.filter isWritten) (tallyBy anyRec db.events)
-  have e2 := tallyBy_filter_split isWritten db.events
-  apply Counters.ext' <;> omega
-
-/-- `clearWritten` re-establishes `WrittenExact` whatever the state was (it heals D3) -/
-theorem clear_written (db : Db) : WrittenExact db.clearWritten.1 := by
-  obtain ⟨h1, _, h3, _⟩ := clear_spec db
-  unfold WrittenExact
-  rw [h1, h3, tallyBy_none]
-  intro r hr
-  have := (List.mem_filter.mp hr).2
-  simpa using this
-
-/-! ## response writing: event-buffer part -/
-
-theorem writeResponse_eb (db : Db) (cap : Nat) : EbEq (db.writeEvents cap).1 (db.writeResponse cap).1 := by
-  unfold Db.writeResponse
-  simp only []
-  split <;> exact ⟨rfl, rfl, rfl, rfl, rfl, rfl⟩
-
-/-- the event-buffer state after `write_unsolicited` is: reset, select the classes, then either
-    nothing (no record selected) or `write_events` -/
-theorem writeUnsolicited_eb (db : Db) (c1 c2 c3 : Bool) (cap : Nat) :
-    ∃ dbs, EbSel db.reset dbs ∧
-      ((db.writeUnsolicited c1 c2 c3 cap).1 = dbs ∨
-       (db.writeUnsolicited c1 c2 c3 cap).1 = (dbs.writeEvents cap).1) := by
-  unfold Db.writeUnsolicited
-  simp only []
-  refine ⟨{ db.reset with events := (selectEvents (fun r => (c1 && r.cls == 1) || (c2 && r.cls == 2) || (c3 && r.cls == 3)) none none db.reset.events).1 },
-    ⟨selectEvents_pointwise _ _ _ _, rfl, rfl, rfl, rfl, rfl⟩, ?_⟩
-  split
-  · left; rfl
-  · right; rfl
-
-/-! ## every operation preserves the invariants -/
-
-theorem ordered_step (db : Db) (op : DbOp) (h : Ordered db) : Ordered (step db op) := by
-  cases op with
-  | add t idx cls => exact (add_eb db t idx cls).ordered h
-  | update t idx v f tm => exact update_ordered db t idx v f tm h
-  | select hd => exact (select_sel db hd).ordered h
-  | write cap => exact (writeResponse_eb db cap).ordered (writeEvents_ordered db cap h)
-  | unsol c1 c2 c3 cap =>
-    obtain ⟨dbs, hs, he | he⟩ := writeUnsolicited_eb db c1 c2 c3 cap
-    · show Ordered (db.writeUnsolicited c1 c2 c3 cap).1
-      rw [he]; exact hs.ordered (reset_ordered db h)
-    · show Ordered (db.writeUnsolicited c1 c2 c3 cap).1
-      rw [he]; exact writeEvents_ordered _ _ (hs.ordered (reset_ordered db h))
-  | clear => exact clear_ordered db h
-  | reset => exact reset_ordered db h
-
-theorem total_step (db : Db) (op : DbOp) (h : TotalExact db) : TotalExact (step db op) := by
-  cases op with
-  | add t idx cls => exact (add_eb db t idx cls).total h
-  | update t idx v f tm => exact update_total db t idx v f tm h
-  | select hd => exact (select_sel db hd).total h
-  | write cap => exact (writeResponse_eb db cap).total (writeEvents_total db cap h)
-  | unsol c1 c2 c3 cap =>
-    obtain ⟨dbs, hs, he | he⟩ := writeUnsolicited_eb db c1 c2 c3 cap
-    · show TotalExact (db.writeUnsolicited c1 c2 c3 cap).1
-      rw [he]; exact hs.total (reset_total db h)
-    · show TotalExact (db.writeUnsolicited c1 c2 c3 cap).1
-      rw [he]; exact writeEvents_total _ _ (hs.total (reset_total db h))
-  | clear => exact clear_total db h
-  | reset => exact reset_total db h
-
-theorem written_step (db : Db) (op : DbOp) (h : WrittenExact db) : WrittenExact (step db op) := by
-  cases op with
-  | add t idx cls => exact (add_eb db t idx cls).written h
-  | update t idx v f tm => exact update_written db t idx v f tm h
-  | select hd => exact (select_sel db hd).written h
-  | write cap => exact (writeResponse_eb db cap).written (writeEvents_written db cap h)
-  | unsol c1 c2 c3 cap =>
-    obtain ⟨dbs, hsel, he | he⟩ := writeUnsolicited_eb db c1 c2 c3 cap
-    · show WrittenExact (db.writeUnsolicited c1 c2 c3 cap).1
-      rw [he]; exact hsel.written (reset_written db)
-    · show WrittenExact (db.writeUnsolicited c1 c2 c3 cap).1
-      rw [he]; exact writeEvents_written _ _ (hsel.written (reset_written db))
-  | clear => exact clear_written db
-  | reset => exact reset_written db
-
-instance (db : Db) : Decidable (TotalExact db) := by unfold TotalExact; exact inferInstance
-instance (db : Db) : Decidable (WrittenExact db) := by unfold WrittenExact; exact inferInstance
-instance (db : Db) : Decidable (CountersExact db) := by unfold CountersExact; exact inferInstance
-instance (db : Db) : Decidable (Ordered db) := by unfold Ordered; exact inferInstance
-
-/-- in an `Ordered` buffer a record is determined by its id -/
-theorem ordered_id_inj {l : List EvRec} (hp : l.Pairwise (fun a b => a.id < b.id)) {x r : EvRec}
-    (hx : x ∈ l) (hr : r ∈ l) (hid : x.id = r.id) : x = r := by
-  induction l with
-  | nil => simp at hx
-  | cons a as ih =>
-    obtain ⟨h1, h2⟩ := List.pairwise_cons.mp hp
-    rcases List.mem_cons.mp hx with rfl | hx' <;> rcases List.mem_cons.mp hr with rfl | hr'
-    · rfl
-    · exact absurd hid (Nat.ne_of_lt (h1 r hr'))
-    · exact absurd hid.symm (Nat.ne_of_lt (h1 x hx'))
-    · exact ih h2 hx' hr'
-
-theorem new_ordered (evMax : Nat) (sel : Option Nat) : Ordered (Db.new evMax sel) := by
-  simp [Ordered, Db.new]
-theorem new_total (evMax : Nat) (sel : Option Nat) : TotalExact (Db.new evMax sel) := rfl
-theorem new_written (evMax : Nat) (sel : Option Nat) : WrittenExact (Db.new evMax sel) := rfl
-
-theorem ordered_run (db : Db) (ops : List DbOp) (h : Ordered db) : Ordered (run db ops) := by
-  induction ops generalizing db with
-  | nil => exact h
-  | cons op ops ih => exact ih _ (ordered_step db op h)
-
-theorem total_run (db : Db) (ops : List DbOp) (h : TotalExact db) : TotalExact (run db ops) := by
-  induction ops generalizing db with
-  | nil => exact h
-  | cons op ops ih => exact ih _ (total_step db op h)
-
-theorem written_run (db : Db) (ops : List DbOp) (h : WrittenExact db) : WrittenExact (run db ops) := by
-  induction ops generalizing db with
-  | nil => exact h
-  | cons op ops ih => exact ih _ (written_step db op h)
-
-theorem counters_step (db : Db) (op : DbOp) (h : CountersExact db) : CountersExact (step db op) :=
-  ⟨total_step db op h.1, written_step db op h.2⟩
-
-theorem counters_run (db : Db) (ops : List DbOp) (h : CountersExact db) : CountersExact (run db ops) :=
-  ⟨total_run db ops h.1, written_run db ops h.2⟩
-
-theorem new_counters (evMax : Nat) (sel : Option Nat) : CountersExact (Db.new evMax sel) :=
-  ⟨new_total evMax sel, new_written evMax sel⟩
-
-/-! ## `kept`: nothing but a reported overflow discard and `clearWritten` removes a record -/
-
-/-- `r` survives in `l'` (same id, index, class, type, measurement, default variation) -/
-def SurvivesIn (r : EvRec) (l' : List EvRec) : Prop := ∃ r' ∈ l', core r' = core r
-
-theorem survives_of_map_core {l l' : List EvRec} (h : l'.map core = l.map core) (r : EvRec) (hr : r ∈ l) :
-    SurvivesIn r l' := by
-  have : core r ∈ l.map core := List.mem_map.mpr ⟨r, hr, rfl⟩
-  rw [← h] at this
-  obtain ⟨r', hr', he⟩ := List.mem_map.mp this
-  exact ⟨r', hr', he⟩
-
-theorem survives_trans {r r' : EvRec} {l : List EvRec} (h : core r' = core r) (h2 : SurvivesIn r' l) :
-    SurvivesIn r l := by
-  obtain ⟨x, hx, he⟩ := h2
-  exact ⟨x, hx, he.trans h⟩
-
-theorem EbSel.survives {db db' : Db} (h : EbSel db db') (r : EvRec) (hr : r ∈ db.events) :
-    SurvivesIn r db'.events :=
-  survives_of_map_core (h.1.map_eq core (fun _ _ hs => hs.core.1)) r hr
-
-theorem writeEvents_survives (db : Db) (cap : Nat) (r : EvRec) (hr : r ∈ db.events) :
-    SurvivesIn r (db.writeEvents cap).1.events := by
-  obtain ⟨n, h1, _⟩ := writeEvents_spec db cap
-  rw [h1]
-  exact survives_of_map_core ((markFirst_pointwise db.events n).map_eq core (fun a b hs => hs.core)) r hr
-
-theorem reset_survives (db : Db) (r : EvRec) (hr : r ∈ db.events) : SurvivesIn r db.reset.events :=
-  survives_of_map_core (reset_spec db).2.1 r hr
-
-/-- an insert keeps every record except the one it reports as discarded -/
-theorem insert_survives (db : Db) (idx cls : Nat) (t : PtType) (m : Meas) (dv : Nat) (r : EvRec)
-    (hr : r ∈ db.events) :
-    SurvivesIn r (db.insert idx cls t m dv).1.events ∨
-    ∃ c, (db.insert idx cls t m dv).2 = .overflow c r.id := by
-  rcases insert_cases db idx cls t m dv with ⟨_, he⟩ | ⟨_, d, rest, hfull, hrem, he⟩ | ⟨_, _, he⟩
-  · rw [he]; exact Or.inl ⟨r, hr, rfl⟩
-  · rw [he]
-    obtain ⟨_, pre, post, hl, hrest, _⟩ := removeFirstTy_spec t _ _ _ hrem
-    rw [hl] at hr
-    rcases List.mem_append.mp hr with h | h
-    · exact Or.inl ⟨r, by simp [hrest, h], rfl⟩
-    · rcases List.mem_cons.mp h with h | h
-      · right; exact ⟨db.next, by rw [h]⟩
-      · exact Or.inl ⟨r, by simp [hrest, h], rfl⟩
-  · rw [he]; exact Or.inl ⟨r, by simp [hr], rfl⟩
-
-/-- the only ways a record leaves the buffer -/
-def Lost (db : Db) (op : DbOp) (r : EvRec) : Prop :=
-  match op with
-  | .update t idx v f tm => ∃ c, (db.update t idx v f tm).2 = .overflow c r.id
-  | .clear => r.id ∈ db.clearWritten.2.1
-  | _ => False
-
-/-- `kept`: after any operation every record is still in the buffer with its identity and
-    contents, unless the operation was an update that REPORTED it as the overflow discard, or a
-    `clearWritten` that reported its id as released -/
-theorem kept (db : Db) (op : DbOp) (r : EvRec) (hr : r ∈ db.events) :
-    SurvivesIn r (step db op).events ∨ Lost db op r := by
-  cases op with
-  | add t idx cls =>
-    left; show SurvivesIn r (db.add t idx cls).1.events
-    rw [(add_eb db t idx cls).1]; exact ⟨r, hr, rfl⟩
-  | update t idx v f tm =>
-    show SurvivesIn r (db.update t idx v f tm).1.events ∨ ∃ c, (db.update t idx v f tm).2 = .overflow c r.id
-    obtain ⟨db0, he, h1 | h1 | ⟨cls, m, h1⟩⟩ := update_spec db t idx v f tm <;> rw [h1]
-    · left; simp only []; rw [he.1]; exact ⟨r, hr, rfl⟩
-    · left; simp only []; rw [he.1]; exact ⟨r, hr, rfl⟩
-    · have hr0 : r ∈ db0.events := by rw [he.1]; exact hr
-      rcases insert_survives db0 idx cls t m (defaultEventVar t) r hr0 with h | ⟨c, h⟩
-      · exact Or.inl h
-      · right; exact ⟨c, by simp only [h, infoOf]⟩
-  | select hd => exact Or.inl ((select_sel db hd).survives r hr)
-  | write cap =>
-    left; show SurvivesIn r (db.writeResponse cap).1.events
-    rw [(writeResponse_eb db cap).1]; exact writeEvents_survives db cap r hr
-  | unsol c1 c2 c3 cap =>
-    left; show SurvivesIn r (db.writeUnsolicited c1 c2 c3 cap).1.events
-    obtain ⟨dbs, hs, he | he⟩ := writeUnsolicited_eb db c1 c2 c3 cap <;> rw [he]
-    · obtain ⟨r1, hr1, e1⟩ := reset_survives db r hr
-      exact survives_trans e1 (hs.survives r1 hr1)
-    · obtain ⟨r1, hr1, e1⟩ := reset_survives db r hr
-      obtain ⟨r2, hr2, e2⟩ := hs.survives r1 hr1
-      exact survives_trans (e2.trans e1) (writeEvents_survives dbs cap r2 hr2)
-  | clear =>
-    show SurvivesIn r db.clearWritten.1.events ∨ r.id ∈ db.clearWritten.2.1
-    obtain ⟨h1, h2, _⟩ := clear_spec db
-    rw [h1, h2]
-    cases hw : isWritten r
-    · left; exact ⟨r, List.mem_filter.mpr ⟨hr, by simp [hw]⟩, rfl⟩
-    · right; exact List.mem_map.mpr ⟨r, List.mem_filter.mpr ⟨hr, hw⟩, rfl⟩
-  | reset => exact Or.inl (reset_survives db r hr)
-
-/-- the overflow discard is the OLDEST record of the type: everything before it in the buffer
-    is of another type, and (with `Ordered`) every other record of the type has a larger id -/
-theorem overflow_discards_oldest (db : Db) (idx cls : Nat) (t : PtType) (m : Meas) (dv : Nat) (c dId : Nat)
-    (ho : Ordered db) (h : (db.insert idx cls t m dv).2 = .overflow c dId) :
-    ∃ d ∈ db.events, d.id = dId ∧ d.ty = t ∧
-      (db.insert idx cls t m dv).1.overflown = true ∧
-      ∀ r ∈ db.events, r.ty = t → r ≠ d → d.id < r.id := by
-  rcases insert_cases db idx cls t m dv with ⟨_, he⟩ | ⟨_, d, rest, hfull, hrem, he⟩ | ⟨_, _, he⟩
-  · rw [he] at h; simp at h
-  · rw [he] at h ⊢
-    simp only [InsertResult.overflow.injEq] at h
-    obtain ⟨hty, pre, post, hl, _, hpre⟩ := removeFirstTy_spec t _ _ _ hrem
-    refine ⟨d, by rw [hl]; simp, h.2, hty, rfl, ?_⟩
-    intro r hr hrt hne
-    rw [hl] at hr
-    have hp := ho.1
-    rw [hl, List.pairwise_append] at hp
-    rcases List.mem_append.mp hr with hm | hm
-    · exact absurd hrt (hpre r hm)
-    · rcases List.mem_cons.mp hm with hm | hm
-      · exact absurd hm hne
-      · exact (List.pairwise_cons.mp hp.2.1).1 r hm
-  · rw [he] at h; simp at h
-
-/-! ## internal indications (C13 component level) -/
-
-theorem countP_split_written (q : EvRec → Bool) (l : List EvRec) :
-    l.countP (fun r => anyRec r && q r) =
-      l.countP (fun r => isWritten r && q r) + l.countP (fun r => !isWritten r && q r) := by
-  induction l with
-  | nil => rfl
-  | cons r rs ih =>
-    simp only [countP_cons_b2n]
-    rw [ih]
-    cases isWritten r <;> cases q r <;> simp [anyRec] <;> omega
-
-/-- with exact counters the class bits tell the truth and the checked subtraction cannot panic:
-    bit c is set iff the buffer holds a class-c record that is not `Written` -/
-theorem class_bits_exact_of_counters (db : Db) (h : CountersExact db) :
-    ∃ b1 b2 b3, db.unwrittenClasses = some (b1, b2, b3) ∧
-      (b1 = true ↔ ∃ r ∈ db.events, r.cls = 1 ∧ r.st ≠ .written) ∧
-      (b2 = true ↔ ∃ r ∈ db.events, r.cls = 2 ∧ r.st ≠ .written) ∧
-      (b3 = true ↔ ∃ r ∈ db.events, r.cls = 3 ∧ r.st ≠ .written) := by
-  obtain ⟨ht, hw⟩ := h
-  unfold TotalExact at ht; unfold WrittenExact at hw
-  have s1 := countP_split_written (fun r => r.cls == 1) db.events
-  have s2 := countP_split_written (fun r => r.cls == 2) db.events
-  have s3 := countP_split_written (fun r => r.cls == 3) db.events
-  have key : ∀ k : Nat, (0 < db.events.countP (fun r => !isWritten r && r.cls == k)) ↔
-      ∃ r ∈ db.events, r.cls = k ∧ r.st ≠ .written := by
-    intro k
-    rw [List.countP_pos_iff]
-    constructor
-    · rintro ⟨r, hr, hp⟩
-      simp only [isWritten, Bool.and_eq_true, Bool.not_eq_true', beq_eq_false_iff_ne, beq_iff_eq] at hp
-      exact ⟨r, hr, hp.2, hp.1⟩
-    · rintro ⟨r, hr, hc, hs⟩
-      refine ⟨r, hr, ?_⟩
-      simp only [isWritten, Bool.and_eq_true, Bool.not_eq_true', beq_eq_false_iff_ne, beq_iff_eq]
-      exact ⟨hs, hc⟩
-  have t1 : db.total.c1 = db.events.countP (fun r => anyRec r && r.cls == 1) := by rw [ht]; rfl
-  have t2 : db.total.c2 = db.events.countP (fun r => anyRec r && r.cls == 2) := by rw [ht]; rfl
-  have t3 : db.total.c3 = db.events.countP (fun r => anyRec r && r.cls == 3) := by rw [ht]; rfl
-  have w1 : db.written.c1 = db.events.countP (fun r => isWritten r && r.cls == 1) := by rw [hw]; rfl
-  have w2 : db.written.c2 = db.events.countP (fun r => isWritten r && r.cls == 2) := by rw [hw]; rfl
-  have w3 : db.written.c3 = db.events.countP (fun r => isWritten r && r.cls == 3) := by rw [hw]; rfl
-  unfold Db.unwrittenClasses
-  split
-  · rename_i hc; omega
-  · refine ⟨_, _, _, rfl, ?_, ?_, ?_⟩
-    · rw [← key 1, decide_eq_true_iff]; omega
-    · rw [← key 2, decide_eq_true_iff]; omega
-    · rw [← key 3, decide_eq_true_iff]; omega
-
-/-- the overflow flag is raised by every discard … -/
-theorem overflow_set_on_discard (db : Db) (idx cls : Nat) (t : PtType) (m : Meas) (dv c d : Nat)
-    (h : (db.insert idx cls t m dv).2 = .overflow c d) : (db.insert idx cls t m dv).1.isOverflown = true := by
-  rcases insert_cases db idx cls t m dv with ⟨_, he⟩ | ⟨_, _, _, _, _, he⟩ | ⟨_, _, he⟩ <;> rw [he] at h ⊢
-  · simp at h
-  · rfl
-  · simp at h
-
-/-- … never lowered by an insert … -/
-theorem overflow_kept_by_insert (db : Db) (idx cls : Nat) (t : PtType) (m : Meas) (dv : Nat)
-    (h : db.isOverflown = true) : (db.insert idx cls t m dv).1.isOverflown = true := by
-  rcases insert_cases db idx cls t m dv with ⟨_, he⟩ | ⟨_, _, _, _, _, he⟩ | ⟨_, _, he⟩ <;> rw [he]
-  · exact h
-  · rfl
-  · exact h
-
-/-- … and after `clearWritten` it is set iff it was set and some type is still at capacity -/
-theorem overflow_after_clear (db : Db) :
-    db.clearWritten.1.isOverflown = (db.isOverflown && db.clearWritten.1.isAnyFull) := by
-  unfold Db.clearWritten
-  simp only []
-  split
-  · rename_i hf
-    simp only [Db.isOverflown, hf, Bool.and_true]
-  · rename_i hf
-    simp only [Db.isOverflown]
-    simp only [Bool.not_eq_true] at hf
-    simp only [Db.isAnyFull] at hf ⊢
-    rw [hf, Bool.and_false]
-
-/-- with exact totals, "some type is at capacity" is a statement about the records -/
-theorem isAnyFull_iff (db : Db) (h : TotalExact db) :
-    db.isAnyFull = true ↔ db.evMax ≠ 0 ∧
-      (db.evMax ≤ db.events.countP (fun r => r.ty == .binary) ∨ db.evMax ≤ db.events.countP (fun r => r.ty == .analog)) := by
-  unfold TotalExact at h
-  unfold Db.isAnyFull
-  rw [h]
-  simp [tallyBy, anyRec]
-
-/-! ## static database (C11 component level) -/
-
-/-- keys strictly ascending: the `BTreeMap` order -/
-def KeysSorted (m : List (Nat × Point)) : Prop := m.Pairwise (fun a b => a.1 < b.1)
-def StaticSorted (db : Db) : Prop := KeysSorted db.bins ∧ KeysSorted db.ans
-
-instance (db : Db) : Decidable (StaticSorted db) := by unfold StaticSorted KeysSorted; exact inferInstance
-
-theorem pmInsert_spec : ∀ (m : List (Nat × Point)) (k : Nat) (p : Point) (m' : List (Nat × Point)),
-    pmInsert m k p = some m' → KeysSorted m →
-      KeysSorted m' ∧ ∀ x, x ∈ m' ↔ (x = (k, p) ∨ x ∈ m) := by
-  intro m
-  induction m with
-  | nil =>
-    intro k p m' h _
-    simp only [pmInsert, Option.some.injEq] at h
-    subst h
-    exact ⟨by simp [KeysSorted], by simp⟩
-  | cons a rest ih =>
-    intro k p m' h hs
-    obtain ⟨i, q⟩ := a
-    obtain ⟨h1, h2⟩ := List.pairwise_cons.mp hs
-    unfold pmInsert at h
-    by_cases e : i = k
-    · simp [e] at h
-    · simp only [e, if_false] at h
-      by_cases lt : k < i
-      · simp only [lt, if_true, Option.some.injEq] at h
-        subst h
-        refine ⟨?_, by simp⟩
-        apply List.pairwise_cons.mpr
-        refine ⟨?_, hs⟩
-        intro x hx
-        rcases List.mem_cons.mp hx with rfl | hx
-        · exact lt
-        · exact Nat.lt_trans lt (h1 x hx)
-      · simp only [lt, if_false] at h
-        cases hr : pmInsert rest k p with
-        | none => simp [hr] at h
-        | some r =>
-          simp only [hr, Option.some.injEq] at h
-          subst h
-          obtain ⟨s1, s2⟩ := ih k p r hr h2
-          refine ⟨?_, ?_⟩
-          · apply List.pairwise_cons.mpr
-            refine ⟨?_, s1⟩
-            intro x hx
-            rcases (s2 x).mp hx with rfl | hx
-            · simp only; omega
-            · exact h1 x hx
-          · intro x
-            simp only [List.mem_cons, s2 x]
-            constructor
-            · rintro (h | h | h)
-              · exact Or.inr (Or.inl h)
-              · exact Or.inl h
-              · exact Or.inr (Or.inr h)
-            · rintro (h | h | h)
-              · exact Or.inr (Or.inl h)
-              · exact Or.inl h
-              · exact Or.inr (Or.inr h)
-
-/-- `pmSet` keeps the keys and, at every key, the `selected` cell -/
-theorem pmSet_keys (m : List (Nat × Point)) (k : Nat) (p : Point) :
-    (pmSet m k p).map (·.1) = m.map (·.1) := by
-  induction m with
-  | nil => rfl
-  | cons a rest ih =>
-    obtain ⟨i, q⟩ := a
-    unfold pmSet
-    by_cases e : i = k <;> simp [e, ih]
-
-theorem pmLookup_mem : ∀ (m : List (Nat × Point)) (k : Nat) (p : Point),
-    pmLookup m k = some p → (k, p) ∈ m := by
-  intro m
-  induction m with
-  | nil => intro k p h; simp [pmLookup] at h
-  | cons a rest ih =>
-    intro k p h
-    obtain ⟨i, q⟩ := a
-    unfold pmLookup at h
-    by_cases e : i = k
-    · simp only [e, if_true, Option.some.injEq] at h
-      subst h; subst e; exact List.mem_cons_self ..
-    · simp only [e, if_false] at h
-      by_cases lt : k < i
-      · simp [lt] at h
-      · simp only [lt, if_false] at h
-        exact List.mem_cons_of_mem _ (ih k p h)
-
-/-- what a queue entry reads of a point: its key and its `selected` cell -/
-def selView (m : List (Nat × Point)) : List (Nat × Meas) := m.map (fun x => (x.1, x.2.selected))
-
-theorem pmSet_selView (m : List (Nat × Point)) (k : Nat) (p q : Point) (hq : pmLookup m k = some q)
-    (hsel : p.selected = q.selected) (hs : KeysSorted m) : selView (pmSet m k p) = selView m := by
-  induction m with
-  | nil => rfl
-  | cons a rest ih =>
-    obtain ⟨i, x⟩ := a
-    obtain ⟨h1, h2⟩ := List.pairwise_cons.mp hs
-    unfold pmLookup at hq
-    unfold pmSet
-    by_cases e : i = k
-    · simp only [e, if_true, Option.some.injEq] at hq
-      subst hq
-      simp [e, selView, hsel]
-    · simp only [e, if_false] at hq ⊢
-      by_cases lt : k < i
-      · simp [lt] at hq
-      · simp only [lt, if_false] at hq
-        have := ih hq h2
-        simp only [selView, List.map_cons] at this ⊢
-        rw [this]
-
-theorem keysSorted_of_keys {m m' : List (Nat × Point)} (h : m'.map (·.1) = m.map (·.1)) (hs : KeysSorted m) :
-    KeysSorted m' := by
-  unfold KeysSorted at *
-  have : (m.map (·.1)).Pairwise (· < ·) := List.pairwise_map.mpr hs
-  rw [← h] at this
-  exact List.pairwise_map.mp this
-
-theorem snapshot_keys (a b : Nat) (m : List (Nat × Point)) : (snapshot a b m).map (·.1) = m.map (·.1) := by
-  induction m with
-  | nil => rfl
-  | cons x rest ih =>
-    obtain ⟨i, p⟩ := x
-    simp only [snapshot, List.map_cons, ih]
-    split <;> rfl
-
-/-- `select_range_with_variation`: inside the range `selected` becomes `current`; outside nothing changes -/
-theorem snapshot_spec (a b : Nat) (m : List (Nat × Point)) :
-    snapshot a b m = m.map (fun x => if a ≤ x.1 ∧ x.1 ≤ b then (x.1, { x.2 with selected := x.2.current }) else x) := by
-  induction m with
-  | nil => rfl
-  | cons x rest ih =>
-    obtain ⟨i, p⟩ := x
-    simp only [snapshot, List.map_cons, ih]
-
-/-- the objects of a queue entry depend on the maps only through keys and `selected` cells -/
-theorem itemObjs_congr (db db' : Db) (it : SelItem) (hb : selView db'.bins = selView db.bins)
-    (ha : selView db'.ans = selView db.ans) : itemObjs db' it = itemObjs db it := by
-  have key : ∀ (m : List (Nat × Point)) (f : Nat → Meas → SObj),
-      (m.filter (fun p => inRange it p.1)).map (fun p => f p.1 p.2.selected) =
-      ((selView m).filter (fun p => inRange it p.1)).map (fun p => f p.1 p.2) := by
-    intro m f
-    induction m with
-    | nil => rfl
-    | cons x rest ih =>
-      simp only [selView, List.map_cons, List.filter_cons] at ih ⊢
-      split <;> simp [ih]
-  unfold itemObjs
-  cases it.kind with
-  | binary var =>
-    simp only []
-    rw [key db'.bins (fun i m => { idx := i, g := 1, v := promoteBin (var.getD 2) m, m := m }),
-        key db.bins (fun i m => { idx := i, g := 1, v := promoteBin (var.getD 2) m, m := m }), hb]
-  | analog var =>
-    simp only []
-    rw [key db'.ans (fun i m => { idx := i, g := 30, v := var.getD 1, m := m }),
-        key db.ans (fun i m => { idx := i, g := 30, v := var.getD 1, m := m }), ha]
-  | deadband var =>
-    simp only []
-    rw [key db'.ans (fun i _ => { idx := i, g := 34, v := var.getD 3, m := { value := 0, flags := 0 } }),
-        key db.ans (fun i _ => { idx := i, g := 34, v := var.getD 3, m := { value := 0, flags := 0 } }), ha]
-  | other => rfl
-
-/-- `write_typed_range`: either everything was written, or the list splits at the first object
-    that did not fit, whose index is reported -/
-theorem stLoop_split (cap : Nat) : ∀ (objs : List SObj) (used : Nat) (cur : Option StCur),
-    ((stLoop cap objs used cur).2.2 = none → (stLoop cap objs used cur).1 = objs) ∧
-    (∀ i, (stLoop cap objs used cur).2.2 = some i →
-      ∃ o rest, objs = (stLoop cap objs used cur).1 ++ o :: rest ∧ o.idx = i) := by
-  intro objs
-  induction objs with
-  | nil => intro used cur; simp [stLoop]
-  | cons o os ih =>
-    intro used cur
-    unfold stLoop
-    by_cases hfit : used + stCost cur o ≤ cap
-    · simp only [hfit, if_true]
-      obtain ⟨i1, i2⟩ := ih (used + stCost cur o) (some (stNext cur o))
-      refine ⟨fun h => by rw [i1 h], fun i h => ?_⟩
-      obtain ⟨x, rest, e1, e2⟩ := i2 i h
-      exact ⟨x, rest, by simp only [List.cons_append]; rw [← e1], e2⟩
-    · simp only [hfit, if_false]
-      refine ⟨fun h => by simp at h, fun i h => ?_⟩
-      simp only [Option.some.injEq] at h
-      exact ⟨o, os, rfl, h⟩
-
-/-- restricting a range to start at the key of one of its entries keeps exactly that entry and
-    what follows it -/
-theorem filter_suffix (m : List (Nat × Point)) (hs : KeysSorted m) (it : SelItem)
-    (A B : List (Nat × Point)) (x : Nat × Point)
-    (h : m.filter (fun p => inRange it p.1) = A ++ x :: B) :
-    m.filter (fun p => inRange { it with start := x.1 } p.1) = x :: B := by
-  have hx : x ∈ m.filter (fun p => inRange it p.1) := by rw [h]; simp
-  have hxr : inRange it x.1 = true := (List.mem_filter.mp hx).2
-  simp only [inRange, Bool.and_eq_true, decide_eq_true_eq] at hxr
-  have e : (fun p : Nat × Point => inRange { it with start := x.1 } p.1) =
-      (fun p => decide (x.1 ≤ p.1) && inRange it p.1) := by
-    funext p
-    simp only [inRange]
-    by_cases c1 : x.1 ≤ p.1 <;> by_cases c2 : p.1 ≤ it.stop <;> by_cases c3 : it.start ≤ p.1 <;> simp [c1, c2, c3]
-    omega
-  rw [e, ← List.filter_filter, h]
-  have hsub : (A ++ x :: B).Pairwise (fun a b => a.1 < b.1) := by
-    rw [← h]; exact hs.sublist List.filter_sublist
-  rw [List.pairwise_append] at hsub
-  obtain ⟨_, hxB, hAx⟩ := hsub
-  obtain ⟨hB, _⟩ := List.pairwise_cons.mp hxB
-  rw [List.filter_append]
-  have hA : A.filter (fun p => decide (x.1 ≤ p.1)) = [] := by
-    rw [List.filter_eq_nil_iff]
-    intro a ha
-    have := hAx a ha x (List.mem_cons_self ..)
-    simp only [decide_eq_true_eq]; omega
-  have hB' : (x :: B).filter (fun p => decide (x.1 ≤ p.1)) = x :: B := by
-    rw [List.filter_eq_self]
-    intro b hb
-    rcases List.mem_cons.mp hb with rfl | hb
-    · simp
-    · have := hB b hb; simp only [decide_eq_true_eq]; omega
-  rw [hA, hB', List.nil_append]
-
-/-- the objects of a queue entry, as a map over the filtered point map -/
-def objOf (it : SelItem) (p : Nat × Point) : SObj :=
-  match it.kind with
-  | .binary var => { idx := p.1, g := 1, v := promoteBin (var.getD 2) p.2.selected, m := p.2.selected }
-  | .analog var => { idx := p.1, g := 30, v := var.getD 1, m := p.2.selected }
-  | .deadband var => { idx := p.1, g := 34, v := var.getD 3, m := { value := 0, flags := 0 } }
-  | .other => { idx := p.1, g := 0, v := 0, m := {} }
-
-def mapOf (db : Db) (it : SelItem) : List (Nat × Point) :=
-  match it.kind with
-  | .binary _ => db.bins
-  | .analog _ => db.ans
-  | .deadband _ => db.ans
-  | .other => []
-
-theorem itemObjs_eq (db : Db) (it : SelItem) :
-    itemObjs db it = ((mapOf db it).filter (fun p => inRange it p.1)).map (objOf it) := by
-  unfold itemObjs mapOf objOf
-  cases it.kind <;> simp
-
-theorem objOf_idx (it : SelItem) (p : Nat × Point) : (objOf it p).idx = p.1 := by
-  unfold objOf; cases it.kind <;> rfl
-
-/-- resuming a queue entry at the index that did not fit selects exactly the unwritten rest -/
-theorem itemObjs_resume (db : Db) (hs : StaticSorted db) (it : SelItem) (w rest : List SObj) (o : SObj)
-    (h : itemObjs db it = w ++ o :: rest) : itemObjs db { it with start := o.idx } = o :: rest := by
-  have hsm : KeysSorted (mapOf db it) := by
-    unfold mapOf; cases it.kind <;> simp only [] <;> first | exact hs.1 | exact hs.2 | exact List.Pairwise.nil
-  rw [itemObjs_eq] at h
-  obtain ⟨A, R, hAR, hA, hR⟩ := List.map_eq_append_iff.mp h
-  obtain ⟨x, B, hxB, hx, hB⟩ := List.map_eq_cons_iff.mp hR
-  subst hxB
-  have := filter_suffix (mapOf db it) hsm it A B x hAR
-  have e1 : mapOf db { it with start := o.idx } = mapOf db it := rfl
-  have e2 : objOf { it with start := o.idx } = objOf it := rfl
-  rw [itemObjs_eq, e1, e2]
-  have e3 : o.idx = x.1 := by rw [← hx, objOf_idx]
-  rw [e3, this, List.map_cons, hx, hB]
-
-/-- everything still selected, as one object list -/
-def pending (db : Db) (q : List SelItem) : List SObj := (q.map (itemObjs db)).flatten
-
-/-- conservation: what one `StaticDatabase::write` emits, followed by what remains selected
-    afterwards, is exactly what was selected before — nothing repeated, nothing skipped -/
-theorem qLoop_conserves (db : Db) (hs : StaticSorted db) (cap : Nat) :
-    ∀ (q : List SelItem) (used : Nat),
-      (qLoop db cap q used).1.flatten ++ pending db (qLoop db cap q used).2.1 = pending db q := by
-  intro q
-  induction q with
-  | nil => intro used; simp [qLoop, pending]
-  | cons it its ih =>
-    intro used
-    unfold qLoop
-    obtain ⟨i1, i2⟩ := stLoop_split cap (itemObjs db it) used none
-    cases hf : (stLoop cap (itemObjs db it) used none).2.2 with
-    | none =>
-      have hw := i1 hf
-      have : stLoop cap (itemObjs db it) used none =
-          ((stLoop cap (itemObjs db it) used none).1, (stLoop cap (itemObjs db it) used none).2.1, none) := by
-        rw [← hf]
-      rw [this]
-      simp only [List.flatten_cons]
-      rw [List.append_assoc, ih, hw]
-      simp [pending]
-    | some i =>
-      obtain ⟨o, rest, e1, e2⟩ := i2 i hf
-      have : stLoop cap (itemObjs db it) used none =
-          ((stLoop cap (itemObjs db it) used none).1, (stLoop cap (itemObjs db it) used none).2.1, some i) := by
-        rw [← hf]
-      rw [this]
-      simp only [List.flatten_cons, List.flatten_nil, List.append_nil]
-      have hres := itemObjs_resume db hs it _ rest o e1
-      rw [e2] at hres
-      simp only [pending, List.map_cons, List.flatten_cons, hres]
-      rw [← List.append_assoc, ← e1]
-
-/-! ### a READ series: writes until complete, with updates (and confirms) in between -/
-
-/-- the static side of two databases reads the same: keys, `selected` cells, selection queue -/
-def StSame (db db' : Db) : Prop :=
-  selView db'.bins = selView db.bins ∧ selView db'.ans = selView db.ans ∧ db'.queue = db.queue
-
-theorem StSame.refl (db : Db) : StSame db db := ⟨rfl, rfl, rfl⟩
-theorem StSame.trans {a b c : Db} (h1 : StSame a b) (h2 : StSame b c) : StSame a c :=
-  ⟨h2.1.trans h1.1, h2.2.1.trans h1.2.1, h2.2.2.trans h1.2.2⟩
-
-theorem keysSorted_of_selView {m m' : List (Nat × Point)} (h : selView m' = selView m) (hs : KeysSorted m) :
-    KeysSorted m' := by
-  apply keysSorted_of_keys _ hs
-  have := congrArg (List.map (·.1)) h
-  simp only [selView, List.map_map] at this
-  exact this
-
-theorem StSame.sorted {db db' : Db} (h : StSame db db') (hs : StaticSorted db) : StaticSorted db' :=
-  ⟨keysSorted_of_selView h.1 hs.1, keysSorted_of_selView h.2.1 hs.2⟩
-
-theorem StSame.pending {db db' : Db} (h : StSame db db') (q : List SelItem) : pending db' q = pending db q := by
-  unfold DbProofs.pending
-  congr 1
-  apply List.map_congr_left
-  intro it _
-  exact itemObjs_congr db db' it h.1 h.2.1
-
-theorem insert_stSame (db : Db) (idx cls : Nat) (t : PtType) (m : Meas) (dv : Nat) :
-    StSame db (db.insert idx cls t m dv).1 := by
-  rcases insert_cases db idx cls t m dv with ⟨_, he⟩ | ⟨_, _, _, _, _, he⟩ | ⟨_, _, he⟩ <;> rw [he] <;>
-    exact ⟨rfl, rfl, rfl⟩
-
-/-- an update never changes a key, a `selected` cell or the selection queue -/
-theorem update_stSame (db : Db) (hs : StaticSorted db) (t : PtType) (idx : Nat) (v : Int) (f tm : Nat) :
-    StSame db (db.update t idx v f tm).1 := by
-  unfold Db.update
-  cases hl : pmLookup (db.map t) idx with
-  | none => exact StSame.refl db
-  | some p =>
-    simp only []
-    generalize mkMeas t v f tm = m
-    have hmap : ∀ p' : Point, p'.selected = p.selected → StSame db (db.setMap t (pmSet (db.map t) idx p')) := by
-      intro p' hp'
-      cases t with
-      | binary => exact ⟨pmSet_selView _ _ _ _ hl hp' hs.1, rfl, rfl⟩
-      | analog => exact ⟨rfl, pmSet_selView _ _ _ _ hl hp' hs.2, rfl⟩
-    by_cases hev : isEvent t p.lastEvent m = true
-    · rw [if_pos hev]
-      by_cases hc : p.cls = 0
-      · rw [if_pos hc]; exact hmap _ rfl
-      · rw [if_neg hc]
-        have h1 := hmap { p with current := m, lastEvent := m } rfl
-        have h2 := insert_stSame (db.setMap t (pmSet (db.map t) idx { p with current := m, lastEvent := m })) idx p.cls t m (defaultEventVar t)
-        split <;> rename_i heq <;> (have := h1.trans h2; rw [heq] at this; exact this)
-    · rw [if_neg hev]; exact hmap _ rfl
-
-/-- the static objects one `write_response_headers` emits (one list per queue entry touched) -/
-def writeStaticObjs (db : Db) (cap : Nat) : List (List SObj) :=
-  if (db.writeEvents cap).2.2 then
-    (qLoop (db.writeEvents cap).1 cap (db.writeEvents cap).1.queue (encodeEvents none (db.writeEvents cap).2.1).length).1
-  else []
-
-theorem writeEvents_stSame (db : Db) (cap : Nat) : StSame db (db.writeEvents cap).1 := by
-  obtain ⟨_, _, _, _, _, _, _, _, _, h10, h11, h12, _⟩ := writeEvents_spec db cap
-  exact ⟨by rw [h11], by rw [h12], h10⟩
-
-/-- the response = event encodings, then the encodings of `writeStaticObjs`; the maps are not
-    touched; and what was written plus what stays selected is what was selected -/
-theorem writeResponse_static (db : Db) (hs : StaticSorted db) (cap : Nat) :
-    (db.writeResponse cap).2.1 =
-      encodeEvents none (db.writeEvents cap).2.1 ++ (writeStaticObjs db cap).flatMap (encodeStatic none) ∧
-    selView (db.writeResponse cap).1.bins = selView db.bins ∧
-    selView (db.writeResponse cap).1.ans = selView db.ans ∧
-    (writeStaticObjs db cap).flatten ++ pending db (db.writeResponse cap).1.queue = pending db db.queue ∧
-    ((db.writeResponse cap).2.2.2 = true ↔ (db.writeResponse cap).1.queue = [] ∧ (db.writeEvents cap).2.2 = true) := by
-  have hsame := writeEvents_stSame db cap
-  have hs1 := hsame.sorted hs
-  unfold Db.writeResponse writeStaticObjs
-  simp only []
-  by_cases hc : (db.writeEvents cap).2.2 = true
-  · simp only [hc, if_true]
-    have hcons := qLoop_conserves (db.writeEvents cap).1 hs1 cap (db.writeEvents cap).1.queue
-      (encodeEvents none (db.writeEvents cap).2.1).length
-    rw [hsame.pending, hsame.pending, hsame.2.2] at hcons
-    refine ⟨by first | rfl | trivial, hsame.1, hsame.2.1, hcons, ?_⟩
-    simp [List.isEmpty_iff]
-  · simp only [hc]
-    refine ⟨by simp, hsame.1, hsame.2.1, by simp [hsame.2.2], ?_⟩
-    simp
-
-/-- the operations that may occur between the request and the last fragment of its answer -/
-inductive SOp where
-  | write (cap : Nat)
-  | update (t : PtType) (idx : Nat) (value : Int) (flags time : Nat)
-  | clear
-deriving DecidableEq, Repr
-
-def sstep (db : Db) : SOp → Db
-  | .write cap => (db.writeResponse cap).1
-  | .update t idx v f tm => (db.update t idx v f tm).1
-  | .clear => db.clearWritten.1
-
-/-- static objects emitted by one operation -/
-def sobjs (db : Db) : SOp → List SObj
-  | .write cap => (writeStaticObjs db cap).flatten
-  | _ => []
-
-def seriesEnd (db : Db) (ops : List SOp) : Db := ops.foldl sstep db
-
-def seriesObjs : Db → List SOp → List SObj
-  | _, [] => []
-  | db, op :: ops => sobjs db op ++ seriesObjs (sstep db op) ops
-
-/-- one step of a series: emitted objects + what stays selected = what was selected; the maps
-    keep their keys and `selected` cells -/
-theorem sstep_conserves (db : Db) (hs : StaticSorted db) (op : SOp) :
-    StaticSorted (sstep db op) ∧
-    sobjs db op ++ pending (sstep db op) (sstep db op).queue = pending db db.queue := by
-  cases op with
-  | write cap =>
-    obtain ⟨_, h2, h3, h4, _⟩ := writeResponse_static db hs cap
-    have hsame : StSame db { (db.writeResponse cap).1 with queue := db.queue } := ⟨h2, h3, rfl⟩
-    refine ⟨⟨keysSorted_of_selView h2 hs.1, keysSorted_of_selView h3 hs.2⟩, ?_⟩
-    show (writeStaticObjs db cap).flatten ++ pending (db.writeResponse cap).1 (db.writeResponse cap).1.queue = _
-    have : pending (db.writeResponse cap).1 (db.writeResponse cap).1.queue =
-        pending db (db.writeResponse cap).1.queue := by
-      unfold pending
-      congr 1
-      apply List.map_congr_left
-      intro it _
-      exact itemObjs_congr db _ it h2 h3
-    rw [this, h4]
-  | update t idx v f tm =>
-    have h := update_stSame db hs t idx v f tm
-    refine ⟨h.sorted hs, ?_⟩
-    show [] ++ pending (db.update t idx v f tm).1 (db.update t idx v f tm).1.queue = _
-    rw [List.nil_append, h.2.2, h.pending]
-  | clear =>
-    obtain ⟨_, _, _, _, _, _, _, h8, h9, h10⟩ := clear_spec db
-    have h : StSame db db.clearWritten.1 := ⟨by rw [h9], by rw [h10], h8⟩
-    refine ⟨h.sorted hs, ?_⟩
-    show [] ++ pending db.clearWritten.1 db.clearWritten.1.queue = _
-    rw [List.nil_append, h.2.2, h.pending]
-
-/-- over a whole series (writes, updates, confirms in any order): the objects of all fragments
-    so far, followed by what is still selected, are exactly what the request selected -/
-theorem series_conserves (ops : List SOp) : ∀ (db : Db), StaticSorted db →
-    seriesObjs db ops ++ pending (seriesEnd db ops) (seriesEnd db ops).queue = pending db db.queue := by
-  induction ops with
-  | nil => intro db _; simp [seriesObjs, seriesEnd]
-  | cons op ops ih =>
-    intro db hs
-    obtain ⟨hs', hc⟩ := sstep_conserves db hs op
-    have := ih (sstep db op) hs'
-    simp only [seriesObjs, seriesEnd, List.foldl_cons] at this ⊢
-    rw [List.append_assoc, this, hc]
-
-/-- what a queue entry stands for: every existing point of its range exactly once, in ascending
-    index order, carrying the point's `selected` cell -/
-theorem itemObjs_exactly_once (db : Db) (hs : StaticSorted db) (it : SelItem) :
-    (itemObjs db it).Pairwise (fun a b => a.idx < b.idx) ∧
-    (itemObjs db it).map (·.idx) = ((mapOf db it).filter (fun p => inRange it p.1)).map (·.1) ∧
-    (∀ var, it.kind = .binary var ∨ it.kind = .analog var →
-      (itemObjs db it).map (fun o => (o.idx, o.m)) =
-        ((mapOf db it).filter (fun p => inRange it p.1)).map (fun p => (p.1, p.2.selected))) := by
-  have hsm : KeysSorted (mapOf db it) := by
-    unfold mapOf; cases it.kind <;> simp only [] <;> first | exact hs.1 | exact hs.2 | exact List.Pairwise.nil
-  rw [itemObjs_eq]
-  refine ⟨?_, ?_, ?_⟩
-  · rw [List.pairwise_map]
-    simp only [objOf_idx]
-    exact hsm.sublist List.filter_sublist
-  · simp only [List.map_map]
-    apply List.map_congr_left
-    intro p _; simp [objOf_idx]
-  · intro var hk
-    simp only [List.map_map]
-    apply List.map_congr_left
-    intro p _
-    rcases hk with hk | hk <;> simp [objOf, hk]
-
-/-- `select` of a static header snapshots: the entry it queues stands for the CURRENT values of
-    the existing points of the range at that moment -/
-theorem selectStatic_snapshot (db : Db) (t : PtType) (var : Option Nat) (a b : Nat)
-    (hroom : db.queue.length ≠ db.selCap) :
-    let db' := (db.selectStatic t var (some (a, b))).1
-    let it : SelItem := { kind := kindOf t var, start := a, stop := b }
-    db'.queue = db.queue ++ [it] ∧
-    (itemObjs db' it).map (fun o => (o.idx, o.m)) =
-      ((db.map t).filter (fun p => inRange it p.1)).map (fun p => (p.1, p.2.current)) := by
-  simp only []
-  unfold Db.selectStatic
-  simp only []
-  unfold Db.pushSel
-  have hq : (db.setMap t (snapshot a b (db.map t))).queue = db.queue := by cases t <;> rfl
-  have hc : (db.setMap t (snapshot a b (db.map t))).selCap = db.selCap := by cases t <;> rfl
-  rw [hq, hc, if_neg hroom]
-  refine ⟨rfl, ?_⟩
-  rw [itemObjs_eq]
-  have hm : mapOf ({ db.setMap t (snapshot a b (db.map t)) with queue := db.queue ++ [{ kind := kindOf t var, start := a, stop := b }] }, 0).fst
-      { kind := kindOf t var, start := a, stop := b } = snapshot a b (db.map t) := by
-    cases t <;> rfl
-  have hm' : ∀ X : List (Nat × Point), X = snapshot a b (db.map t) →
-      List.map (fun o : SObj => (o.idx, o.m)) (List.map (objOf { kind := kindOf t var, start := a, stop := b })
-          (List.filter (fun p : Nat × Point => inRange { kind := kindOf t var, start := a, stop := b } p.1) X)) =
-        List.map (fun p : Nat × Point => (p.1, p.2.current))
-          (List.filter (fun p : Nat × Point => inRange { kind := kindOf t var, start := a, stop := b } p.1) (db.map t)) := by
-    intro X hX
-    subst hX
-    rw [snapshot_spec, List.filter_map, List.map_map, List.map_map]
-    have hf : ((fun p : Nat × Point => inRange { kind := kindOf t var, start := a, stop := b } p.1) ∘
-        (fun x : Nat × Point => if a ≤ x.1 ∧ x.1 ≤ b then (x.1, { x.2 with selected := x.2.current }) else x)) =
-        (fun p => inRange { kind := kindOf t var, start := a, stop := b } p.1) := by
-      funext x
-      simp only [Function.comp]
-      split <;> rfl
-    rw [hf]
-    apply List.map_congr_left
-    intro p hp
-    have hr := (List.mem_filter.mp hp).2
-    simp only [inRange, Bool.and_eq_true, decide_eq_true_eq] at hr
-    simp only [Function.comp, hr, and_self, if_true]
-    cases t <;> simp [objOf, kindOf]
-  exact hm' _ hm
-
-/-! ### the maps stay sorted under every operation -/
-
-/-- keys of both maps unchanged -/
-def KeysSame (db db' : Db) : Prop :=
-  db'.bins.map (·.1) = db.bins.map (·.1) ∧ db'.ans.map (·.1) = db.ans.map (·.1)
-
-theorem KeysSame.sorted {db db' : Db} (h : KeysSame db db') (hs : StaticSorted db) : StaticSorted db' :=
-  ⟨keysSorted_of_keys h.1 hs.1, keysSorted_of_keys h.2 hs.2⟩
-
-theorem KeysSame.refl (db : Db) : KeysSame db db := ⟨rfl, rfl⟩
-theorem KeysSame.trans {a b c : Db} (h1 : KeysSame a b) (h2 : KeysSame b c) : KeysSame a c :=
-  ⟨h2.1.trans h1.1, h2.2.trans h1.2⟩
-
-theorem pushSel_keys (db : Db) (it : SelItem) : KeysSame db (db.pushSel it).1 := by
-  unfold Db.pushSel; split <;> exact ⟨rfl, rfl⟩
-
-theorem selectStatic_keys (db : Db) (t : PtType) (var : Option Nat) (range : Option (Nat × Nat)) :
-    KeysSame db (db.selectStatic t var range).1 := by
-  unfold Db.selectStatic
-  split
-  · exact KeysSame.refl db
-  · rename_i a b _
-    have h1 : KeysSame db (db.setMap t (snapshot a b (db.map t))) := by
-      cases t
-      · exact ⟨snapshot_keys a b db.bins, rfl⟩
-      · exact ⟨rfl, snapshot_keys a b db.ans⟩
-    exact h1.trans (pushSel_keys _ _)
-
-theorem select_keys (db : Db) (h : ReadHdr) : KeysSame db (db.select h).1 := by
-  unfold Db.select
-  split
-  · unfold Db.selectClass0
-    exact (selectStatic_keys db .binary none none).trans (selectStatic_keys _ .analog none none)
-  · exact ⟨rfl, rfl⟩
-  · exact ⟨rfl, rfl⟩
-  · exact KeysSame.refl db
-  · exact selectStatic_keys db _ _ _
-  · split
-    · exact KeysSame.refl db
-    · exact pushSel_keys db _
-  · split
-    · exact KeysSame.refl db
-    · exact pushSel_keys db _
-  · exact KeysSame.refl db
-  · split <;> exact KeysSame.refl db
-  · split
-    · exact KeysSame.refl db
-    · split
-      · split
-        · exact ⟨rfl, rfl⟩
-        · exact KeysSame.refl db
-      · exact KeysSame.refl db
-  · exact KeysSame.refl db
-  · exact KeysSame.refl db
-  · exact KeysSame.refl db
-
-theorem add_sorted (db : Db) (t : PtType) (idx cls : Nat) (hs : StaticSorted db) :
-    StaticSorted (db.add t idx cls).1 := by
-  unfold Db.add
-  cases h : pmInsert (db.map t) idx { cls := normClass cls } with
-  | none => exact hs
-  | some m =>
-    cases t
-    · exact ⟨(pmInsert_spec _ _ _ _ h hs.1).1, hs.2⟩
-    · exact ⟨hs.1, (pmInsert_spec _ _ _ _ h hs.2).1⟩
-
-theorem writeUnsolicited_maps (db : Db) (c1 c2 c3 : Bool) (cap : Nat) :
-    (db.writeUnsolicited c1 c2 c3 cap).1.bins = db.bins ∧ (db.writeUnsolicited c1 c2 c3 cap).1.ans = db.ans := by
-  unfold Db.writeUnsolicited
-  simp only []
-  split
-  · exact ⟨rfl, rfl⟩
-  · obtain ⟨_, _, _, _, _, _, _, _, _, _, h11, h12, _⟩ := writeEvents_spec
-      { db.reset with events := (selectEvents (fun r => (c1 && r.cls == 1) || (c2 && r.cls == 2) || (c3 && r.cls == 3)) none none db.reset.events).1 } cap
-    exact ⟨h11, h12⟩
-
-theorem sorted_step (db : Db) (op : DbOp) (hs : StaticSorted db) : StaticSorted (step db op) := by
-  cases op with
-  | add t idx cls => exact add_sorted db t idx cls hs
-  | update t idx v f tm => exact (update_stSame db hs t idx v f tm).sorted hs
-  | select hd => exact (select_keys db hd).sorted hs
-  | write cap =>
-    obtain ⟨_, h2, h3, _⟩ := writeResponse_static db hs cap
-    exact ⟨keysSorted_of_selView h2 hs.1, keysSorted_of_selView h3 hs.2⟩
-  | unsol c1 c2 c3 cap =>
-    obtain ⟨h1, h2⟩ := writeUnsolicited_maps db c1 c2 c3 cap
-    show StaticSorted (db.writeUnsolicited c1 c2 c3 cap).1
-    unfold StaticSorted; rw [h1, h2]; exact hs
-  | clear =>
-    obtain ⟨_, _, _, _, _, _, _, _, h9, h10⟩ := clear_spec db
-    show StaticSorted db.clearWritten.1
-    unfold StaticSorted; rw [h9, h10]; exact hs
-  | reset => exact hs
-
-theorem sorted_run (db : Db) (ops : List DbOp) (h : StaticSorted db) : StaticSorted (run db ops) := by
-  induction ops generalizing db with
-  | nil => exact h
-  | cons op ops ih => exact ih _ (sorted_step db op h)
-
-theorem new_sorted (evMax : Nat) (sel : Option Nat) : StaticSorted (Db.new evMax sel) :=
-  ⟨List.Pairwise.nil, List.Pairwise.nil⟩
-
-/-! ### progress -/
-
-/-- if `write_events` stops early it has written something, or not even a first object fits -/
-theorem evLoop_progress (cap : Nat) : ∀ (l : List EvRec) (used : Nat) (cur : Option EvCur),
-    (evLoop cap l used cur).2.2 = false →
-      (evLoop cap l used cur).2.1 ≠ [] ∨ ∃ r ∈ l, cap < used + evCost cur r := by
-  intro l
-  induction l with
-  | nil => intro used cur h; simp [evLoop] at h
-  | cons r rs ih =>
-    intro used cur h
-    unfold evLoop at h ⊢
-    by_cases hs : r.st = .selected
-    · simp only [hs, if_true] at h ⊢
-      by_cases hfit : used + evCost cur r ≤ cap
-      · simp only [hfit, if_true] at h ⊢
-        left; simp
-      · simp only [hfit, if_false] at h ⊢
-        right; exact ⟨r, List.mem_cons_self .., by omega⟩
-    · simp only [hs, if_false] at h ⊢
-      rcases ih used cur h with h1 | ⟨x, hx, hc⟩
-      · exact Or.inl h1
-      · exact Or.inr ⟨x, List.mem_cons_of_mem _ hx, hc⟩
-
-/-- no event object with its header needs more than 22 octets -/
-theorem evCost_le (cur : Option EvCur) (r : EvRec) : evCost cur r ≤ 22 := by
-  have h1 : evObjSize r.ty r.selVar ≤ 15 := by
-    unfold evObjSize; split <;> omega
-  have h2 : usesCto r.ty r.selVar = true → evObjSize r.ty r.selVar = 3 := by
-    intro h
-    simp only [usesCto, Bool.and_eq_true, beq_iff_eq] at h
-    rw [h.1, h.2]; rfl
-  have h3 : (if usesCto r.ty r.selVar = true then 10 else 0) + 5 + 2 + evObjSize r.ty r.selVar ≤ 22 := by
-    by_cases hc : usesCto r.ty r.selVar = true
-    · rw [if_pos hc, h2 hc]; decide
-    · rw [if_neg hc]; omega
-  unfold evCost
-  split
-  · split
-    · omega
-    · exact h3
-  · exact h3
-
-/-- no static object with its header needs more than 16 octets -/
-theorem stCost_le (cur : Option StCur) (o : SObj) : stCost cur o ≤ 16 := by
-  have h1 : stObjSize o.g o.v ≤ 9 := by
-    unfold stObjSize; split <;> omega
-  unfold stCost
-  split <;> (try split) <;> (try split) <;> (try split) <;> omega
-
-theorem stLoop_progress (cap : Nat) (objs : List SObj) (used : Nat) (cur : Option StCur) :
-    ((stLoop cap objs used cur).1 = [] → (stLoop cap objs used cur).2.1 = used) ∧
-    (∀ i, (stLoop cap objs used cur).2.2 = some i →
-      (stLoop cap objs used cur).1 ≠ [] ∨ ∃ o, cap < used + stCost cur o) := by
-  cases objs with
-  | nil => simp [stLoop]
-  | cons o os =>
-    unfold stLoop
-    by_cases hfit : used + stCost cur o ≤ cap
-    · simp only [hfit, if_true]
-      exact ⟨fun h => by simp at h, fun _ _ => Or.inl (by simp)⟩
-    · simp only [hfit, if_false]
-      exact ⟨fun _ => by first | rfl | trivial, fun _ _ => Or.inr ⟨o, by omega⟩⟩
-
-/-- if `StaticDatabase::write` leaves something selected it has written something, or not even
-    one object with its header fits behind what is already in the buffer -/
-theorem qLoop_progress (db : Db) (cap : Nat) : ∀ (q : List SelItem) (used : Nat),
-    (qLoop db cap q used).2.1 ≠ [] → (qLoop db cap q used).1.flatten ≠ [] ∨ cap < used + 16 := by
-  intro q
-  induction q with
-  | nil => intro used h; simp [qLoop] at h
-  | cons it its ih =>
-    intro used h
-    unfold qLoop at h ⊢
-    obtain ⟨p1, p2⟩ := stLoop_progress cap (itemObjs db it) used none
-    cases hf : (stLoop cap (itemObjs db it) used none).2.2 with
-    | none =>
-      have e : stLoop cap (itemObjs db it) used none =
-          ((stLoop cap (itemObjs db it) used none).1, (stLoop cap (itemObjs db it) used none).2.1, none) := by
-        rw [← hf]
-      rw [e] at h ⊢
-      simp only [] at h ⊢
-      by_cases hw : (stLoop cap (itemObjs db it) used none).1 = []
-      · have hu := p1 hw
-        rw [hu] at h ⊢
-        rcases ih used h with h1 | h1
-        · left; simp only [List.flatten_cons, hw, List.nil_append]; exact h1
-        · exact Or.inr h1
-      · left
-        simp only [List.flatten_cons]
-        intro hc
-        exact hw (List.append_eq_nil_iff.mp hc).1
-    | some i =>
-      have e : stLoop cap (itemObjs db it) used none =
-          ((stLoop cap (itemObjs db it) used none).1, (stLoop cap (itemObjs db it) used none).2.1, some i) := by
-        rw [← hf]
-      rw [e]
-      simp only [List.flatten_cons, List.flatten_nil, List.append_nil]
-      rcases p2 i hf with h1 | ⟨o, ho⟩
-      · exact Or.inl h1
-      · right; have := stCost_le none o; omega
-
-/-- `progress`: when one object together with its header fits the buffer (22 octets suffice for
-    every modelled variation), a response that is not complete carries at least one object -/
-theorem write_progress (db : Db) (cap : Nat) (hcap : 22 ≤ cap)
-    (hinc : (db.writeResponse cap).2.2.2 = false) :
-    (db.writeEvents cap).2.1 ≠ [] ∨ (writeStaticObjs db cap).flatten ≠ [] := by
-  by_cases hw : ¬ (db.writeEvents cap).2.1 = []
-  · exact Or.inl hw
-  have hw : (db.writeEvents cap).2.1 = [] := Decidable.not_not.mp hw
-  right
-  unfold Db.writeResponse at hinc
-  unfold writeStaticObjs
-  simp only [] at hinc
-  by_cases hc : (db.writeEvents cap).2.2 = true
-  · simp only [hc, if_true] at hinc ⊢
-    have hq : (qLoop (db.writeEvents cap).1 cap (db.writeEvents cap).1.queue
-        (encodeEvents none (db.writeEvents cap).2.1).length).2.1 ≠ [] := by
-      intro he
-      rw [he] at hinc
-      simp at hinc
-    rcases qLoop_progress _ cap _ _ hq with h | h
-    · exact h
-    · rw [hw] at h
-      simp [encodeEvents] at h
-      omega
-  · exfalso
-    have hcf : (db.writeEvents cap).2.2 = false := by simpa using hc
-    have := evLoop_progress cap db.events 0 none hcf
-    rcases this with h | ⟨r, _, hr⟩
-    · exact h hw
-    · have := evCost_le none r; omega
-
-/-! ## the cost the writers charge is the length of what they write -/
-
-theorem le16_len (n : Nat) : (le16 n).length = 2 := rfl
-theorem le32_len (n : Nat) : (le32 n).length = 4 := rfl
-theorem le48_len (n : Nat) : (le48 n).length = 6 := rfl
-theorem le64_len (n : Nat) : (le64 n).length = 8 := rfl
-
-theorem evObj_length (cto : Nat) (r : EvRec) : (evObj cto r).length = evObjSize r.ty r.selVar := by
-  rcases r with ⟨id, index, cls, ty, m, dv, sv, st⟩
-  simp only
-  cases ty
-  · have : sv = 1 ∨ sv = 2 ∨ sv = 3 ∨ (sv ≠ 1 ∧ sv ≠ 2 ∧ sv ≠ 3) := by omega
-    rcases this with rfl | rfl | rfl | ⟨h1, h2, h3⟩
-    · rfl
-    · rfl
-    · rfl
-    · unfold evObj evObjSize
-      split <;> simp_all
-  · have : sv = 1 ∨ sv = 2 ∨ sv = 3 ∨ sv = 4 ∨ sv = 5 ∨ sv = 6 ∨ sv = 7 ∨ sv = 8 ∨
-        (sv ≠ 1 ∧ sv ≠ 2 ∧ sv ≠ 3 ∧ sv ≠ 4 ∧ sv ≠ 5 ∧ sv ≠ 6 ∧ sv ≠ 7 ∧ sv ≠ 8) := by omega
-    rcases this with rfl | rfl | rfl | rfl | rfl | rfl | rfl | rfl | h
-    · rfl
-    · rfl
-    · rfl
-    · rfl
-    · rfl
-    · rfl
-    · rfl
-    · rfl
-    · unfold evObj evObjSize
-      split <;> simp_all
-
-theorem stObjBytes_length (o : SObj) : (stObjBytes o).length = stObjSize o.g o.v := by
-  rcases o with ⟨idx, g, v, m⟩
-  simp only
-  unfold stObjBytes stObjSize
-  split <;> first | rfl | (split <;> simp_all [le16_len, le32_len, le64_len])
-
-theorem evHeader_length (r : EvRec) (n : Nat) :
-    (evHeader r n).length = (if usesCto r.ty r.selVar = true then 10 else 0) + 5 := by
-  unfold evHeader ctoHeader
-  by_cases h : usesCto r.ty r.selVar = true <;> simp [h, le16_len, le48_len]
-
-/-- one record's octets have exactly the length the writer charged for it -/
-theorem encodeEvents_cons (cur : Option EvCur) (r : EvRec) (rs : List EvRec) :
-    ∃ X, encodeEvents cur (r :: rs) = X ++ encodeEvents (some (evNext cur r)) rs ∧ X.length = evCost cur r := by
-  have fresh : ∃ X, evHeader r (1 + evRunLen (EvCur.start r) rs) ++ le16 r.index ++ evObj r.m.time r
-        ++ encodeEvents (some (EvCur.start r)) rs = X ++ encodeEvents (some (EvCur.start r)) rs ∧
-      X.length = (if usesCto r.ty r.selVar = true then 10 else 0) + 5 + 2 + evObjSize r.ty r.selVar := by
-    refine ⟨evHeader r (1 + evRunLen (EvCur.start r) rs) ++ le16 r.index ++ evObj r.m.time r, rfl, ?_⟩
-    simp only [List.length_append, evHeader_length, le16_len, evObj_length]
-  cases cur with
-  | none =>
-    simp only [encodeEvents, evNext, evCost]
-    exact fresh
-  | some c =>
-    simp only [encodeEvents, evNext, evCost]
-    by_cases hc : evContinues c r = true
-    · simp only [hc, if_true]
-      refine ⟨le16 r.index ++ evObj c.cto r, by simp, ?_⟩
-      simp only [List.length_append, le16_len, evObj_length]
-    · simp only [hc]
-      exact fresh
-
-theorem evLoop_len (cap : Nat) : ∀ (l : List EvRec) (used : Nat) (cur : Option EvCur), used ≤ cap →
-    used + (encodeEvents cur (evLoop cap l used cur).2.1).length ≤ cap := by
-  intro l
-  induction l with
-  | nil => intro used cur h; simpa [evLoop, encodeEvents] using h
-  | cons r rs ih =>
-    intro used cur h
-    unfold evLoop
-    by_cases hs : r.st = .selected
-    · simp only [hs, if_true]
-      by_cases hfit : used + evCost cur r ≤ cap
-      · simp only [hfit, if_true]
-        obtain ⟨X, hX, hl⟩ := encodeEvents_cons cur r (evLoop cap rs (used + evCost cur r) (some (evNext cur r))).2.1
-        rw [hX, List.length_append, hl]
-        have := ih (used + evCost cur r) (some (evNext cur r)) hfit
-        omega
-      · simp only [hfit, if_false]
-        simpa [encodeEvents] using h
-    · simp only [hs, if_false]
-      exact ih used cur h
-
-theorem encodeStatic_cons (cur : Option StCur) (o : SObj) (os : List SObj) :
-    ∃ X, encodeStatic cur (o :: os) = X ++ encodeStatic (some (stNext cur o)) os ∧ X.length = stCost cur o := by
-  have fresh : ∃ X, [o.g, o.v, 0x01] ++ le16 o.idx ++ le16 (o.idx + stRunLen { g := o.g, v := o.v, last := o.idx, n := 1 } os) ++
-        (if isBits o.g o.v = true then
-           [packBits ((o :: os).take (min 8 (stRunLen { g := o.g, v := o.v, last := o.idx, n := 1 } os + 1)))]
-         else stObjBytes o) ++
-        encodeStatic (some { g := o.g, v := o.v, last := o.idx, n := 1 }) os =
-        X ++ encodeStatic (some { g := o.g, v := o.v, last := o.idx, n := 1 }) os ∧
-      X.length = 7 + (if isBits o.g o.v = true then 1 else stObjSize o.g o.v) := by
-    refine ⟨_, rfl, ?_⟩
-    by_cases hb : isBits o.g o.v = true <;> simp [hb, le16_len, stObjBytes_length] <;> omega
-  cases cur with
-  | none =>
-    simp only [encodeStatic, stNext, stCost]
-    exact fresh
-  | some c =>
-    simp only [encodeStatic, stNext, stCost]
-    by_cases hc : stContinues c o = true
-    · simp only [hc, if_true]
-      refine ⟨_, rfl, ?_⟩
-      by_cases hb : isBits o.g o.v = true
-      · by_cases hn : c.n % 8 = 0 <;> simp [hb, hn]
-      · simp [hb, stObjBytes_length]
-    · simp only [hc]
-      exact fresh
-
-theorem stLoop_len (cap : Nat) : ∀ (objs : List SObj) (used : Nat) (cur : Option StCur), used ≤ cap →
-    (stLoop cap objs used cur).2.1 = used + (encodeStatic cur (stLoop cap objs used cur).1).length ∧
-    (stLoop cap objs used cur).2.1 ≤ cap := by
-  intro objs
-  induction objs with
-  | nil => intro used cur h; simpa [stLoop, encodeStatic] using h
-  | cons o os ih =>
-    intro used cur h
-    unfold stLoop
-    by_cases hfit : used + stCost cur o ≤ cap
-    · simp only [hfit, if_true]
-      have ih' := ih (used + stCost cur o) (some (stNext cur o)) hfit
-      rcases hres : stLoop cap os (used + stCost cur o) (some (stNext cur o)) with ⟨w, u, f⟩
-      rw [hres] at ih'
-      simp only [] at ih' ⊢
-      obtain ⟨X, hX, hl⟩ := encodeStatic_cons cur o w
-      rw [hX, List.length_append, hl]
-      exact ⟨by omega, ih'.2⟩
-    · simp only [hfit, if_false]
-      simpa [encodeStatic] using h
-
-theorem qLoop_len (db : Db) (cap : Nat) : ∀ (q : List SelItem) (used : Nat), used ≤ cap →
-    (qLoop db cap q used).2.2 = used + ((qLoop db cap q used).1.flatMap (encodeStatic none)).length ∧
-    (qLoop db cap q used).2.2 ≤ cap := by
-  intro q
-  induction q with
-  | nil => intro used h; simpa [qLoop] using h
-  | cons it its ih =>
-    intro used h
-    unfold qLoop
-    have hl := stLoop_len cap (itemObjs db it) used none h
-    rcases hres : stLoop cap (itemObjs db it) used none with ⟨w, u, f⟩
-    rw [hres] at hl
-    simp only [] at hl
-    obtain ⟨l1, l2⟩ := hl
-    cases f with
-    | none =>
-      simp only []
-      have ih' := ih u l2
-      rcases hq : qLoop db cap its u with ⟨ws, q', u'⟩
-      rw [hq] at ih'
-      simp only [] at ih' ⊢
-      refine ⟨?_, ih'.2⟩
-      rw [List.flatMap_cons, List.length_append]
-      omega
-    | some i =>
-      simp only [List.flatMap_cons, List.flatMap_nil, List.append_nil]
-      exact ⟨l1, l2⟩
-
-/-- a response never exceeds the space it was given -/
-theorem response_within_capacity (db : Db) (cap : Nat) : (db.writeResponse cap).2.1.length ≤ cap := by
-  have hev : (encodeEvents none (db.writeEvents cap).2.1).length ≤ cap := by
-    have h := evLoop_len cap db.events 0 none (Nat.zero_le _)
-    rw [Nat.zero_add] at h
-    exact h
-  unfold Db.writeResponse
-  simp only []
-  split
-  · have hq := qLoop_len (db.writeEvents cap).1 cap (db.writeEvents cap).1.queue _ hev
-    rcases hres : qLoop (db.writeEvents cap).1 cap (db.writeEvents cap).1.queue
-      (encodeEvents none (db.writeEvents cap).2.1).length with ⟨ws, q', u'⟩
-    rw [hres] at hq
-    simp only [] at hq ⊢
-    rw [List.length_append]
-    exact Nat.le_trans (Nat.le_of_eq hq.1.symm) hq.2
-  · exact hev
-
-theorem unsolicited_within_capacity (db : Db) (c1 c2 c3 : Bool) (cap : Nat) :
-    (db.writeUnsolicited c1 c2 c3 cap).2.1.length ≤ cap := by
-  unfold Db.writeUnsolicited
-  simp only []
-  split
-  · simp
-  · have h := evLoop_len cap
-      (selectEvents (fun r => (c1 && r.cls == 1) || (c2 && r.cls == 2) || (c3 && r.cls == 3)) none none db.reset.events).1
-      0 none (Nat.zero_le _)
-    rw [Nat.zero_add] at h
-    exact h
-
-end Dnp3.DbProofs
